@@ -3,13 +3,11 @@ From Coq Require Import String Ascii List Arith Bool Lia.
 From GolemV Require Import Serial.HistoryCodec.
 Import ListNotations.
 
+
 (* ------------------------------------------------------------------------------------- *)
 (* legacy class paths                                                                     *)
 (* ------------------------------------------------------------------------------------- *)
 Lemma legacy_classes_ok_true : legacy_classes_ok = true.
-Proof. vm_compute. reflexivity. Qed.
-
-Lemma legacy_modules_ok_true : legacy_modules_ok = true.
 Proof. vm_compute. reflexivity. Qed.
 
 Theorem legacy_paths : forall k v, In (k, v) LEGACY_CLASS_PATHS -> resolves_to_current k = true.
@@ -18,11 +16,1517 @@ Proof.
   rewrite forallb_forall in H. exact (H (k, v) Hin).
 Qed.
 
+(* module prefixes: every entry maps its own prefix to its target, an existing module *)
+Lemma legacy_modules_ok_true : legacy_modules_ok = true.
+Proof. vm_compute. reflexivity. Qed.
+
 Theorem legacy_module_paths : forall k v, In (k, v) LEGACY_MODULE_PATHS ->
   legacy_module_map k = v /\ In v CURRENT_MODULES.
 Proof.
   intros k v Hin. pose proof legacy_modules_ok_true as H. unfold legacy_modules_ok in H.
-  rewrite forallb_forall in H. specialize (H (k, v) Hin). cbn [fst snd] in H.
-  apply andb_true_iff in H. destruct H as [H1 H2]. apply String.eqb_eq in H2. split; [exact H2|].
+  rewrite forallb_forall in H. specialize (H (k, v) Hin).
+  unfold legacy_module_ok in H. cbn [fst snd] in H. apply andb_true_iff in H. destruct H as [H1 H2].
+  apply String.eqb_eq in H2. split; [exact H2|].
   apply existsb_exists in H1. destruct H1 as [x [Hx He]]. apply String.eqb_eq in He. rewrite <- H2, He. exact Hx.
+Qed.
+
+(* ------------------------------------------------------------------------------------- *)
+(* generic helpers                                                                        *)
+(* ------------------------------------------------------------------------------------- *)
+Lemma nth_error_firstn_lt : forall (A : Type) (l : list A) r i, i < r -> nth_error (firstn r l) i = nth_error l i.
+Proof.
+  induction l as [|x t IH]; intros r i Hi.
+  - rewrite firstn_nil. reflexivity.
+  - destruct r as [|r]; [lia|]. destruct i as [|i]; [reflexivity|]. cbn. apply IH. lia.
+Qed.
+
+Lemma nth_error_skipn_add : forall (A : Type) (l : list A) n i, nth_error (skipn n l) i = nth_error l (n + i).
+Proof.
+  induction l as [|x t IH]; intros n i.
+  - rewrite skipn_nil. destruct i, n; reflexivity.
+  - destruct n as [|n]; [reflexivity|]. cbn. apply IH.
+Qed.
+
+Lemma NoDup_app_intro_single : forall (A : Type) (l : list A) x, NoDup l -> ~ In x l -> NoDup (l ++ [x]).
+Proof.
+  induction l as [|y t IH]; intros x Hnd Hx; cbn.
+  - constructor; [intros []|constructor].
+  - inversion Hnd; subst. constructor.
+    + intros Hin. apply in_app_or in Hin. destruct Hin as [Hin|[->|[]]]; [contradiction|]. apply Hx. left. reflexivity.
+    + apply IH; [assumption|]. intros Hin. apply Hx. right. exact Hin.
+Qed.
+
+Lemma upd_length : forall (A : Type) (l : list A) r x, r < length l -> length (upd l r x) = length l.
+Proof.
+  intros A l r x Hr. unfold upd. rewrite app_length. cbn [length]. rewrite firstn_length, skipn_length. lia.
+Qed.
+
+Lemma upd_nth_same : forall (A : Type) (l : list A) r x, r < length l -> nth_error (upd l r x) r = Some x.
+Proof.
+  intros A l r x Hr. unfold upd. rewrite nth_error_app2; rewrite firstn_length; [|lia].
+  replace (r - Nat.min r (length l)) with 0 by lia. reflexivity.
+Qed.
+
+Lemma upd_nth_other : forall (A : Type) (l : list A) r x i, r < length l -> i <> r ->
+  nth_error (upd l r x) i = nth_error l i.
+Proof.
+  intros A l r x i Hr Hi. unfold upd.
+  destruct (Nat.lt_ge_cases i r) as [Hlt|Hge].
+  - rewrite nth_error_app1 by (rewrite firstn_length; lia). apply nth_error_firstn_lt. exact Hlt.
+  - rewrite nth_error_app2 by (rewrite firstn_length; lia). rewrite firstn_length.
+    replace (Nat.min r (length l)) with r by lia.
+    destruct (i - r) as [|k] eqn:E; [lia|]. cbn [nth_error].
+    rewrite nth_error_skipn_add. f_equal. lia.
+Qed.
+
+Lemma get_nth_error : forall h r i, nth_error h r = Some i -> get h r = i.
+Proof. intros h r i H. unfold get. apply nth_error_nth. exact H. Qed.
+
+Lemma get_default : forall h r, length h <= r -> get h r = dummy_ind.
+Proof. intros. unfold get. apply nth_overflow. assumption. Qed.
+
+Lemma nth_error_get : forall h r, r < length h -> nth_error h r = Some (get h r).
+Proof. intros h r Hr. unfold get. apply nth_error_nth'. exact Hr. Qed.
+
+(* ------------------------------------------------------------------------------------- *)
+(* dict                                                                                   *)
+(* ------------------------------------------------------------------------------------- *)
+Lemma dict_set_absent : forall m k v, ~ In k (dict_keys m) -> dict_set m k v = m ++ [(k, v)].
+Proof.
+  induction m as [|[k' v'] t IH]; intros k v H; cbn [dict_set]; [reflexivity|].
+  cbn in H. destruct (Nat.eqb k k') eqn:E.
+  - apply Nat.eqb_eq in E. exfalso. apply H. left. symmetry. exact E.
+  - cbn [app]. f_equal. apply IH. intros Hin. apply H. right. exact Hin.
+Qed.
+
+Lemma dict_set_present : forall m k v, NoDup (dict_keys m) -> In (k, v) m -> dict_set m k v = m.
+Proof.
+  induction m as [|[k' v'] t IH]; intros k v Hnd Hin; [destruct Hin|].
+  cbn [dict_set]. cbn in Hnd. inversion Hnd as [|? ? Hnotin Hnd']; subst.
+  destruct (Nat.eqb k k') eqn:E.
+  - apply Nat.eqb_eq in E. subst k'. destruct Hin as [Hin|Hin].
+    + inversion Hin. reflexivity.
+    + exfalso. apply Hnotin. unfold dict_keys. change k with (fst (k, v)). apply in_map. exact Hin.
+  - apply Nat.eqb_neq in E. destruct Hin as [Hin|Hin].
+    + inversion Hin. exfalso. apply E. symmetry. assumption.
+    + f_equal. apply IH; assumption.
+Qed.
+
+Lemma dict_keys_app : forall m m2, dict_keys (m ++ m2) = dict_keys m ++ dict_keys m2.
+Proof. intros. unfold dict_keys. apply map_app. Qed.
+
+Lemma dict_vals_app : forall m m2, dict_vals (m ++ m2) = dict_vals m ++ dict_vals m2.
+Proof. intros. unfold dict_vals. apply map_app. Qed.
+
+Lemma in_dict_keys : forall (m : dict) k v, In (k, v) m -> In k (dict_keys m).
+Proof. intros m k v H. unfold dict_keys. change k with (fst (k, v)). apply in_map. exact H. Qed.
+
+Lemma in_dict_vals : forall (m : dict) k v, In (k, v) m -> In v (dict_vals m).
+Proof. intros m k v H. unfold dict_vals. change v with (snd (k, v)). apply in_map. exact H. Qed.
+
+Lemma dict_get_in : forall m k v, NoDup (dict_keys m) -> In (k, v) m -> dict_get m k = Some v.
+Proof.
+  induction m as [|[k' v'] t IH]; intros k v Hnd Hin; [destruct Hin|].
+  cbn [dict_get]. cbn in Hnd. inversion Hnd as [|? ? Hnotin Hnd']; subst.
+  destruct (Nat.eqb k k') eqn:E.
+  - apply Nat.eqb_eq in E. subst k'. destruct Hin as [Hin|Hin]; [inversion Hin; reflexivity|].
+    exfalso. apply Hnotin. eapply in_dict_keys. exact Hin.
+  - apply Nat.eqb_neq in E. destruct Hin as [Hin|Hin]; [inversion Hin; exfalso; apply E; symmetry; assumption|].
+    apply IH; assumption.
+Qed.
+
+Lemma dict_get_some_in : forall m k v, dict_get m k = Some v -> In (k, v) m.
+Proof.
+  induction m as [|[k' v'] t IH]; intros k v H; cbn [dict_get] in H; [discriminate|].
+  destruct (Nat.eqb k k') eqn:E.
+  - apply Nat.eqb_eq in E. subst. inversion H. left. reflexivity.
+  - right. apply IH. exact H.
+Qed.
+
+Lemma dict_get_none : forall m k, ~ In k (dict_keys m) -> dict_get m k = None.
+Proof.
+  induction m as [|[k' v'] t IH]; intros k H; [reflexivity|]. cbn [dict_get]. cbn in H.
+  destruct (Nat.eqb k k') eqn:E.
+  - apply Nat.eqb_eq in E. exfalso. apply H. left. symmetry. exact E.
+  - apply IH. intros Hin. apply H. right. exact Hin.
+Qed.
+
+(* ofold *)
+Lemma ofold_app : forall (A B : Type) (f : A -> B -> option A) xs ys a,
+  ofold f (xs ++ ys) a = match ofold f xs a with Some a' => ofold f ys a' | None => None end.
+Proof.
+  induction xs as [|x t IH]; intros ys a; cbn [ofold app]; [reflexivity|].
+  destruct (f a x); [apply IH|reflexivity].
+Qed.
+
+(* ------------------------------------------------------------------------------------- *)
+(* the pool computed by the encoder                                                       *)
+(* ------------------------------------------------------------------------------------- *)
+Section Pool.
+Variable H : hist.
+Let h := h_heap H.
+Hypothesis UF : uid_faithful H.
+
+(* entries are (uid of the object, object), objects are reachable, keys are distinct *)
+Definition good (pm : dict) : Prop :=
+  NoDup (dict_keys pm) /\ forall k v, In (k, v) pm -> k = uid_of h v /\ reach H v.
+
+Lemma good_nil : good [].
+Proof. split; [constructor|intros k v []]. Qed.
+
+Lemma good_set : forall pm p, good pm -> reach H p ->
+  (dict_set pm (uid_of h p) p = pm /\ In (uid_of h p, p) pm) \/
+  (dict_set pm (uid_of h p) p = pm ++ [(uid_of h p, p)] /\ ~ In (uid_of h p) (dict_keys pm)).
+Proof.
+  intros pm p [Hnd Hg] Hp.
+  destruct (in_dec Nat.eq_dec (uid_of h p) (dict_keys pm)) as [Hin|Hnin].
+  - left. unfold dict_keys in Hin. apply in_map_iff in Hin. destruct Hin as [[k v] [Hk Hin]]. cbn in Hk. subst k.
+    destruct (Hg _ _ Hin) as [Hu Hv].
+    assert (v = p) as ->.
+    { apply UF; [exact Hv|exact Hp|]. fold h. symmetry. exact Hu. }
+    split; [apply dict_set_present; assumption|exact Hin].
+  - right. split; [apply dict_set_absent; exact Hnin|exact Hnin].
+Qed.
+
+Lemma good_set_good : forall pm p, good pm -> reach H p ->
+  good (dict_set pm (uid_of h p) p) /\ incl pm (dict_set pm (uid_of h p) p) /\
+  In (uid_of h p, p) (dict_set pm (uid_of h p) p).
+Proof.
+  intros pm p Hg Hp. destruct (good_set _ _ Hg Hp) as [[-> Hin]|[-> Hnin]].
+  - split; [exact Hg|]. split; [apply incl_refl|exact Hin].
+  - destruct Hg as [Hnd Hg]. split; [split|split].
+    + rewrite dict_keys_app. cbn. apply NoDup_app_intro_single; assumption.
+    + intros k v Hin. apply in_app_or in Hin. destruct Hin as [Hin|[Hin|[]]]; [apply Hg; exact Hin|].
+      inversion Hin. subst. split; [reflexivity|exact Hp].
+    + apply incl_appl. apply incl_refl.
+    + apply in_or_app. right. left. reflexivity.
+Qed.
+
+(* has_key on a good dict: the key of a reachable object finds the object itself *)
+Lemma has_key_good : forall pm p, good pm -> reach H p -> has_key pm (uid_of h p) = true -> In (uid_of h p, p) pm.
+Proof.
+  intros pm p [Hnd Hg] Hp Hk. unfold has_key in Hk. apply existsb_exists in Hk. destruct Hk as [k [Hk He]].
+  apply Nat.eqb_eq in He. subst k. unfold dict_keys in Hk. apply in_map_iff in Hk. destruct Hk as [[k v] [Hkv Hin]].
+  cbn in Hkv. subst k. destruct (Hg _ _ Hin) as [Hu Hv].
+  assert (v = p) as -> by (apply UF; [exact Hv|exact Hp|fold h; symmetry; exact Hu]). exact Hin.
+Qed.
+
+Lemma has_key_false : forall pm k, has_key pm k = false -> ~ In k (dict_keys pm).
+Proof.
+  intros pm k Hk Hin. unfold has_key in Hk. assert (existsb (Nat.eqb k) (dict_keys pm) = true); [|congruence].
+  apply existsb_exists. exists k. split; [exact Hin|apply Nat.eqb_refl].
+Qed.
+
+Variable gm : dict.
+Hypothesis GM : good gm.
+
+(* the object is stored: in the generations map or in the parents map *)
+Definition covered (pm : dict) (p : nat) : Prop := In (uid_of h p, p) gm \/ In (uid_of h p, p) pm.
+
+Definition newclosed_d (pm pm' : dict) : Prop :=
+  forall k v, In (k, v) pm' -> ~ In (k, v) pm -> forall p, In (PRef p) (parents_of (get h v)) -> covered pm' p.
+
+Lemma covered_incl : forall pm pm' p, incl pm pm' -> covered pm p -> covered pm' p.
+Proof. intros pm pm' p Hi [Hc|Hc]; [left; exact Hc|right; apply Hi; exact Hc]. Qed.
+
+Lemma pair_in_dec : forall (kv : nat * nat) (l : dict), {In kv l} + {~ In kv l}.
+Proof. intros. apply in_dec. decide equality; apply Nat.eq_dec. Qed.
+
+Lemma newclosed_d_trans : forall a b c, newclosed_d a b -> newclosed_d b c -> incl b c -> newclosed_d a c.
+Proof.
+  intros a b c Hab Hbc Hi k v Hc Ha p Hp.
+  destruct (pair_in_dec (k, v) b) as [Hb|Hb].
+  - eapply covered_incl; [exact Hi|]. eapply Hab; eassumption.
+  - eapply Hbc; eassumption.
+Qed.
+
+Definition extract_post (pm : dict) (r : nat) (pm' : dict) : Prop :=
+  good pm' /\ incl pm pm' /\ (forall p, In (PRef p) (parents_of (get h r)) -> covered pm' p) /\ newclosed_d pm pm'.
+
+Lemma extract_spec : forall d pm r pm', good pm -> reach H r -> extract d h gm pm r = Some pm' -> extract_post pm r pm'.
+Proof.
+  induction d as [|d IHd]; intros pm r pm' Hg Hr Hex; [discriminate|].
+  cbn [extract] in Hex.
+  set (F := fun (pm1 : dict) (x : pref) =>
+        match x with
+        | PStr _ => None
+        | PRef p => if has_key gm (uid_of h p) || has_key pm1 (uid_of h p) then Some pm1
+                    else extract d h gm (dict_set pm1 (uid_of h p) p) p
+        end) in Hex.
+  assert (Hfold : forall xs pm0 pm1, good pm0 -> (forall p, In (PRef p) xs -> reach H p) ->
+            ofold F xs pm0 = Some pm1 ->
+            good pm1 /\ incl pm0 pm1 /\ (forall p, In (PRef p) xs -> covered pm1 p) /\ newclosed_d pm0 pm1).
+  { induction xs as [|x t IHt]; intros pm0 pm1 Hg0 Hin Hf; cbn [ofold] in Hf.
+    - inversion Hf; subst. split; [exact Hg0|]. split; [apply incl_refl|]. split; [intros p []|].
+      intros k v H1 H2. contradiction.
+    - destruct (F pm0 x) as [pm2|] eqn:EF; [|discriminate].
+      assert (Hstep : good pm2 /\ incl pm0 pm2 /\ (forall p, x = PRef p -> covered pm2 p) /\ newclosed_d pm0 pm2).
+      { unfold F in EF. destruct x as [p|u]; [|discriminate].
+        assert (Hp : reach H p) by (apply Hin; left; reflexivity).
+        destruct (has_key gm (uid_of h p) || has_key pm0 (uid_of h p)) eqn:Ek.
+        - inversion EF; subst pm2. split; [exact Hg0|]. split; [apply incl_refl|]. split.
+          + intros p0 Hx. inversion Hx; subst p0. apply orb_true_iff in Ek. destruct Ek as [Ek|Ek].
+            * left. apply has_key_good; assumption.
+            * right. apply has_key_good; assumption.
+          + intros k v H1 H2. contradiction.
+        - apply orb_false_iff in Ek. destruct Ek as [_ Ek2].
+          destruct (good_set_good _ _ Hg0 Hp) as [Hg1 [Hinc1 Hmem]].
+          destruct (IHd _ _ _ Hg1 Hp EF) as [Hg2 [Hinc2 [Hcov2 Hnc2]]].
+          split; [exact Hg2|]. split; [eapply incl_tran; eassumption|]. split.
+          + intros p0 Hx. inversion Hx; subst p0. right. apply Hinc2. exact Hmem.
+          + intros k v H1 H2 q Hq.
+            destruct (pair_in_dec (k, v) (dict_set pm0 (uid_of h p) p)) as [Hd|Hd].
+            * rewrite (dict_set_absent _ _ _ (has_key_false _ _ Ek2)) in Hd. apply in_app_or in Hd.
+              destruct Hd as [Hd|[Hd|[]]]; [contradiction|]. inversion Hd; subst k v. apply Hcov2. exact Hq.
+            * eapply Hnc2; eassumption. }
+      destruct Hstep as [Hg2 [Hinc2 [Hcov2 Hnc2]]].
+      destruct (IHt pm2 pm1 Hg2 (fun p Hp => Hin p (or_intror Hp)) Hf) as [Hg1 [Hinc1 [Hcov1 Hnc1]]].
+      split; [exact Hg1|]. split; [eapply incl_tran; eassumption|]. split.
+      + intros p [Hx|Hx]; [eapply covered_incl; [exact Hinc1|]; apply Hcov2; exact Hx|apply Hcov1; exact Hx].
+      + eapply newclosed_d_trans; eassumption. }
+  destruct (Hfold _ _ _ Hg (fun p Hp => @reach_parent H r p Hr Hp) Hex) as [Hg1 [Hinc [Hcov Hnc]]].
+  split; [exact Hg1|]. split; [exact Hinc|]. split; [exact Hcov|exact Hnc].
+Qed.
+
+Lemma parents_map_spec : forall d vs pm0 pm, good pm0 -> (forall r, In r vs -> reach H r) ->
+  ofold (fun pm r => extract d h gm pm r) vs pm0 = Some pm ->
+  good pm /\ incl pm0 pm /\ (forall r p, In r vs -> In (PRef p) (parents_of (get h r)) -> covered pm p) /\ newclosed_d pm0 pm.
+Proof.
+  induction vs as [|v t IH]; intros pm0 pm Hg Hin Hf; cbn [ofold] in Hf.
+  - inversion Hf; subst. split; [exact Hg|]. split; [apply incl_refl|]. split; [intros r p []|]. intros k v H1 H2. contradiction.
+  - destruct (extract d h gm pm0 v) as [pm1|] eqn:E; [|discriminate].
+    destruct (extract_spec _ _ _ _ Hg (Hin v (or_introl eq_refl)) E) as [Hg1 [Hinc1 [Hcov1 Hnc1]]].
+    destruct (IH _ _ Hg1 (fun r Hr => Hin r (or_intror Hr)) Hf) as [Hg2 [Hinc2 [Hcov2 Hnc2]]].
+    split; [exact Hg2|]. split; [eapply incl_tran; eassumption|]. split.
+    + intros r p [->|Hr] Hp; [eapply covered_incl; [exact Hinc2|]; apply Hcov1; exact Hp|eapply Hcov2; eassumption].
+    + eapply newclosed_d_trans; eassumption.
+Qed.
+
+End Pool.
+
+Section Pool2.
+Variable H : hist.
+Let h := h_heap H.
+Hypothesis UF : uid_faithful H.
+
+(* generations_map *)
+Lemma gens_map_spec : forall rs m0, good H m0 -> (forall r, In r rs -> reach H r) ->
+  let m := fold_left (fun m r => dict_set m (uid_of h r) r) rs m0 in
+  good H m /\ incl m0 m /\ forall r, In r rs -> In (uid_of h r, r) m.
+Proof.
+  induction rs as [|r t IH]; intros m0 Hg Hin; cbn [fold_left].
+  - split; [exact Hg|]. split; [apply incl_refl|intros r []].
+  - destruct (good_set_good H UF _ _ Hg (Hin r (or_introl eq_refl))) as [Hg1 [Hinc1 Hmem]].
+    destruct (IH _ Hg1 (fun r0 Hr0 => Hin r0 (or_intror Hr0))) as [Hg2 [Hinc2 Hall]].
+    split; [exact Hg2|]. split; [eapply incl_tran; eassumption|].
+    intros r0 [->|Hr0]; [apply Hinc2; exact Hmem|apply Hall; exact Hr0].
+Qed.
+
+Lemma dict_update_spec : forall m2 m, good H m -> (forall k v, In (k, v) m2 -> k = uid_of h v /\ reach H v) ->
+  good H (dict_update m m2) /\ incl m (dict_update m m2) /\ incl m2 (dict_update m m2).
+Proof.
+  unfold dict_update. induction m2 as [|[k v] t IH]; intros m Hg Hin; cbn [fold_left].
+  - split; [exact Hg|]. split; [apply incl_refl|intros x []].
+  - destruct (Hin k v (or_introl eq_refl)) as [-> Hv]. cbn [fst snd].
+    destruct (good_set_good H UF _ _ Hg Hv) as [Hg1 [Hinc1 Hmem]].
+    destruct (IH _ Hg1 (fun k0 v0 H0 => Hin k0 v0 (or_intror H0))) as [Hg2 [Hinc2 Hinc3]].
+    split; [exact Hg2|]. split; [eapply incl_tran; eassumption|].
+    intros x [<-|Hx]; [apply Hinc2; exact Hmem|apply Hinc3; exact Hx].
+Qed.
+
+Lemma pool_roots_reach : forall r, In r (pool_roots H) -> reach H r.
+Proof.
+  intros r Hr. unfold pool_roots in Hr. apply in_app_or in Hr. destruct Hr as [Hr|Hr]; [apply reach_gen|apply reach_snap]; exact Hr.
+Qed.
+
+(* the pool: distinct uids, exactly the reachable objects *)
+Lemma pool_refs_spec : forall d rs, pool_refs d H = Some rs ->
+  NoDup (map (uid_of h) rs) /\ forall x, reach H x <-> In x rs.
+Proof.
+  intros d rs Hp. unfold pool_refs in Hp. fold h in Hp.
+  destruct (parents_map d h (gens_map h (pool_roots H))) as [pm|] eqn:Epm; [|discriminate].
+  inversion Hp; subst rs; clear Hp.
+  destruct (gens_map_spec _ _ (good_nil H) pool_roots_reach) as [Hgm [_ Hgm_all]].
+  fold (gens_map h (pool_roots H)) in Hgm, Hgm_all.
+  set (gm := gens_map h (pool_roots H)) in *.
+  assert (Hvals : forall r, In r (dict_vals gm) -> reach H r).
+  { intros r Hr. unfold dict_vals in Hr. apply in_map_iff in Hr. destruct Hr as [[k v] [Hk Hin]]. cbn in Hk. subst v.
+    apply (proj2 Hgm) in Hin. apply Hin. }
+  unfold parents_map in Epm.
+  destruct (parents_map_spec H UF gm Hgm _ _ _ _ (good_nil H) Hvals Epm) as [Hgpm [_ [Hcov Hnc]]].
+  destruct (dict_update_spec gm _ Hgpm (proj2 Hgm)) as [Hgu [Hinc1 Hinc2]].
+  set (P := dict_update pm gm) in *.
+  assert (Hkeys : dict_keys P = map (uid_of h) (dict_vals P)).
+  { unfold dict_keys, dict_vals. rewrite map_map. apply map_ext_in. intros [k v] Hin. cbn.
+    apply (proj2 Hgu) in Hin. apply Hin. }
+  split; [rewrite <- Hkeys; apply Hgu|].
+  assert (Hall : forall x, reach H x -> covered H gm pm x).
+  { induction 1 as [r Hg|r Hs|c p Hc IH Hp].
+    - left. apply Hgm_all. unfold pool_roots. apply in_or_app. left. exact Hg.
+    - left. apply Hgm_all. unfold pool_roots. apply in_or_app. right. exact Hs.
+    - destruct IH as [Hc1|Hc2].
+      + eapply Hcov; [eapply in_dict_vals; exact Hc1|exact Hp].
+      + eapply Hnc; [exact Hc2|intros []|exact Hp]. }
+  intros x. split.
+  - intros Hx. destruct (Hall x Hx) as [Hc|Hc]; eapply in_dict_vals; [apply Hinc2|apply Hinc1]; exact Hc.
+  - intros Hx. unfold dict_vals in Hx. apply in_map_iff in Hx. destruct Hx as [[k v] [Hk Hin]]. cbn in Hk. subst v.
+    apply (proj2 Hgu) in Hin. apply Hin.
+Qed.
+
+End Pool2.
+
+(* ------------------------------------------------------------------------------------- *)
+(* more helpers                                                                           *)
+(* ------------------------------------------------------------------------------------- *)
+Lemma get_upd_same : forall (hp : list (ind pref)) r x, r < length hp -> get (upd hp r x) r = x.
+Proof. intros. apply get_nth_error. apply upd_nth_same. assumption. Qed.
+
+Lemma get_upd_other : forall (hp : list (ind pref)) r x i, r < length hp -> i <> r -> get (upd hp r x) i = get hp i.
+Proof.
+  intros hp r x i Hr Hi. unfold get.
+  destruct (nth_error (upd hp r x) i) as [y|] eqn:E.
+  - rewrite (nth_error_nth _ _ _ E). rewrite upd_nth_other in E by assumption. rewrite (nth_error_nth _ _ _ E). reflexivity.
+  - pose proof E as E2. rewrite upd_nth_other in E2 by assumption.
+    apply nth_error_None in E. apply nth_error_None in E2. rewrite !nth_overflow by assumption. reflexivity.
+Qed.
+
+Lemma dict_get_set : forall m k v k', dict_get (dict_set m k v) k' = if Nat.eqb k' k then Some v else dict_get m k'.
+Proof.
+  induction m as [|[k0 v0] t IH]; intros k v k'; cbn [dict_set dict_get].
+  - reflexivity.
+  - destruct (Nat.eqb k k0) eqn:E.
+    + apply Nat.eqb_eq in E. subst k0. cbn [dict_get]. destruct (Nat.eqb k' k); reflexivity.
+    + cbn [dict_get]. destruct (Nat.eqb k' k0) eqn:E2.
+      * apply Nat.eqb_eq in E2. subst k0. destruct (Nat.eqb k' k) eqn:E3; [|reflexivity].
+        apply Nat.eqb_eq in E3. subst. rewrite Nat.eqb_refl in E. discriminate.
+      * apply IH.
+Qed.
+
+Fixpoint find_index (u : nat) (us : list nat) : option nat :=
+  match us with
+  | [] => None
+  | x :: t => if Nat.eqb u x then Some 0 else option_map S (find_index u t)
+  end.
+
+Lemma find_index_none : forall u us, ~ In u us -> find_index u us = None.
+Proof.
+  induction us as [|x t IH]; intros Hn; [reflexivity|]. cbn [find_index].
+  destruct (Nat.eqb u x) eqn:E; [apply Nat.eqb_eq in E; exfalso; apply Hn; left; symmetry; exact E|].
+  rewrite IH; [reflexivity|]. intros Hin. apply Hn. right. exact Hin.
+Qed.
+
+Lemma find_index_some : forall u us, In u us -> exists i, find_index u us = Some i /\ nth_error us i = Some u.
+Proof.
+  induction us as [|x t IH]; intros Hin; [destruct Hin|]. cbn [find_index].
+  destruct (Nat.eqb u x) eqn:E.
+  - apply Nat.eqb_eq in E. subst. exists 0. split; reflexivity.
+  - apply Nat.eqb_neq in E. destruct Hin as [Hin|Hin]; [exfalso; apply E; symmetry; exact Hin|].
+    destruct (IH Hin) as [i [Hi Hn]]. exists (S i). rewrite Hi. split; [reflexivity|exact Hn].
+Qed.
+
+Lemma find_index_nth : forall us i u, NoDup us -> nth_error us i = Some u -> find_index u us = Some i.
+Proof.
+  induction us as [|x t IH]; intros i u Hnd Hn; [destruct i; discriminate|].
+  inversion Hnd as [|? ? Hnotin Hnd']; subst. cbn [find_index]. destruct i as [|i]; cbn in Hn.
+  - inversion Hn. subst. rewrite Nat.eqb_refl. reflexivity.
+  - destruct (Nat.eqb u x) eqn:E.
+    + apply Nat.eqb_eq in E. subst. exfalso. apply Hnotin. eapply nth_error_In. exact Hn.
+    + rewrite (IH _ _ Hnd' Hn). reflexivity.
+Qed.
+
+Lemma umap_from_get : forall pool k m0 u, NoDup (map (@i_uid nat) pool) ->
+  dict_get (umap_from k pool m0) u =
+  match find_index u (map (@i_uid nat) pool) with Some i => Some (k + i) | None => dict_get m0 u end.
+Proof.
+  induction pool as [|e t IH]; intros k m0 u Hnd; cbn [umap_from map find_index]; [reflexivity|].
+  inversion Hnd as [|? ? Hnotin Hnd']; subst. rewrite IH by assumption.
+  destruct (Nat.eqb u (i_uid e)) eqn:E.
+  - apply Nat.eqb_eq in E. subst u. rewrite find_index_none by assumption.
+    rewrite dict_get_set. rewrite Nat.eqb_refl. f_equal. lia.
+  - destruct (find_index u (map (@i_uid nat) t)) as [i|]; cbn [option_map].
+    + f_equal. lia.
+    + rewrite dict_get_set. rewrite E. reflexivity.
+Qed.
+
+(* ------------------------------------------------------------------------------------- *)
+(* the decoder on a closed pool                                                           *)
+(* ------------------------------------------------------------------------------------- *)
+Section ClosedDecode.
+Variable pool : list (ind nat).
+Let us := map (@i_uid nat) pool.
+Let m := umap pool.
+Let n := length pool.
+Hypothesis ND : NoDup us.
+Hypothesis PC : forall e u, In e pool -> In u (parents_of e) -> In u us.
+
+Definition ix (u : nat) : nat := match dict_get m u with Some r => r | None => 0 end.
+
+Lemma ix_spec : forall u, In u us ->
+  dict_get m u = Some (ix u) /\ ix u < n /\ exists e, nth_error pool (ix u) = Some e /\ i_uid e = u.
+Proof.
+  intros u Hin. unfold ix, m, umap. rewrite umap_from_get by exact ND.
+  destruct (find_index_some _ _ Hin) as [i [Hf Hn]]. fold us. rewrite Hf. cbn [Nat.add].
+  split; [reflexivity|]. unfold us in Hn. rewrite nth_error_map in Hn.
+  destruct (nth_error pool i) as [e|] eqn:E; [|discriminate]. cbn in Hn. inversion Hn.
+  split; [unfold n; apply nth_error_Some; rewrite E; discriminate|]. exists e. split; reflexivity.
+Qed.
+
+Lemma ix_nth : forall i e, nth_error pool i = Some e -> ix (i_uid e) = i.
+Proof.
+  intros i e Hn. unfold ix, m, umap. rewrite umap_from_get by exact ND. fold us.
+  rewrite (find_index_nth us i (i_uid e) ND); [reflexivity|]. unfold us. rewrite nth_error_map, Hn. reflexivity.
+Qed.
+
+Definition rref (x : pref) : nat := match x with PRef r => r | PStr u => ix u end.
+
+Lemma resolve_list_closed : forall xs hp, (forall u, In (PStr u) xs -> In u us) ->
+  resolve_list m hp xs = (hp, map rref xs).
+Proof.
+  induction xs as [|x t IH]; intros hp Hc; cbn [resolve_list map]; [reflexivity|].
+  assert (E1 : resolve1 m hp x = (hp, rref x)).
+  { destruct x as [r|u]; cbn [resolve1 rref]; [reflexivity|].
+    destruct (ix_spec u (Hc u (or_introl eq_refl))) as [Hg _]. rewrite Hg. reflexivity. }
+  rewrite E1. rewrite IH by (intros u Hu; apply Hc; right; exact Hu). reflexivity.
+Qed.
+
+Lemma resolve_lists_closed : forall ls hp, (forall u, In u (concat ls) -> In u us) ->
+  resolve_lists m hp ls = (hp, map (map ix) ls).
+Proof.
+  induction ls as [|l t IH]; intros hp Hc; cbn [resolve_lists map]; [reflexivity|].
+  rewrite resolve_list_closed.
+  - rewrite IH by (intros u Hu; apply Hc; cbn; apply in_or_app; right; exact Hu).
+    rewrite map_map. reflexivity.
+  - intros u Hu. apply in_map_iff in Hu. destruct Hu as [u' [Hu' Hin]]. inversion Hu'. subst.
+    apply Hc. cbn. apply in_or_app. left. exact Hin.
+Qed.
+
+Definition ix_gen (g : gen) : gen := mkGen (g_num g) (g_label g) (g_meta g) (map ix (g_members g)).
+
+Lemma resolve_gens_closed : forall gs hp, (forall u, In u (all_members gs) -> In u us) ->
+  resolve_gens m hp gs = (hp, map ix_gen gs).
+Proof.
+  induction gs as [|g t IH]; intros hp Hc; cbn [resolve_gens map]; [reflexivity|].
+  rewrite resolve_list_closed.
+  - rewrite IH by (intros u Hu; apply Hc; unfold all_members; cbn; apply in_or_app; right; exact Hu).
+    rewrite map_map. reflexivity.
+  - intros u Hu. apply in_map_iff in Hu. destruct Hu as [u' [Hu' Hin]]. inversion Hu'. subst.
+    apply Hc. unfold all_members. cbn. apply in_or_app. left. exact Hin.
+Qed.
+
+(* the re-linked form of a pool entry *)
+Definition link_pop (o : pop nat) : pop pref := mkPop (p_type o) (p_ops o) (p_uid o) (map (fun u => PRef (ix u)) (p_parents o)).
+Definition link_ind (e : ind nat) : ind pref :=
+  mkInd (i_uid e) (i_fit e) (i_graph e) (i_meta e) (i_ng e) (option_map link_pop (i_op e)).
+
+Definition Inv (hp : list (ind pref)) : Prop :=
+  length hp = n /\ forall i e, nth_error pool i = Some e -> get hp i = dec_ind e \/ get hp i = link_ind e.
+
+Definition lnk (hp : list (ind pref)) (i : nat) : Prop := has_str (get hp i) = false.
+Definition mono (hp hp' : list (ind pref)) : Prop := forall i, lnk hp i -> lnk hp' i.
+Definition newclosed (hp hp' : list (ind pref)) : Prop :=
+  forall i e, nth_error pool i = Some e -> lnk hp' i -> ~ lnk hp i -> forall u, In u (parents_of e) -> lnk hp' (ix u).
+
+Lemma has_str_link : forall e, has_str (link_ind e) = false.
+Proof.
+  intros e. unfold has_str, parents_of, link_ind. cbn [i_op]. destruct (i_op e) as [o|]; [|reflexivity].
+  cbn [option_map link_pop p_parents]. induction (p_parents o) as [|u t IH]; [reflexivity|exact IH].
+Qed.
+
+Lemma has_str_dec : forall e, has_str (dec_ind e) = false -> parents_of e = [].
+Proof.
+  intros e. unfold has_str, parents_of, dec_ind. cbn [i_op]. destruct (i_op e) as [o|]; [|reflexivity].
+  cbn [option_map dec_pop p_parents]. destruct (p_parents o) as [|u t]; [reflexivity|discriminate].
+Qed.
+
+Lemma dec_eq_link_of_nil : forall e, parents_of e = [] -> dec_ind e = link_ind e.
+Proof.
+  intros e. unfold parents_of, dec_ind, link_ind. destruct (i_op e) as [o|]; [|reflexivity].
+  intros Hp. cbn [option_map]. unfold dec_pop, link_pop. rewrite Hp. reflexivity.
+Qed.
+
+Lemma newclosed_trans : forall a b c, newclosed a b -> newclosed b c -> mono b c -> newclosed a c.
+Proof.
+  intros a b c Hab Hbc Hm i e Hn Hc Ha u Hu.
+  destruct (has_str (get b i)) eqn:Eb.
+  - eapply Hbc; try eassumption. unfold lnk. rewrite Eb. discriminate.
+  - apply Hm. eapply Hab; eassumption.
+Qed.
+
+Definition relink_post (hp : list (ind pref)) (r : nat) (hp' : list (ind pref)) : Prop :=
+  Inv hp' /\ mono hp hp' /\ lnk hp' r /\ newclosed hp hp'.
+
+Lemma relink_fold_spec : forall d,
+  (forall hp r hp', Inv hp -> r < n -> relink d m hp r = Some hp' -> relink_post hp r hp') ->
+  forall vs hq hq', Inv hq -> (forall v, In v vs -> v < n) ->
+  ofold (fun hq p => if has_str (get hq p) then relink d m hq p else Some hq) vs hq = Some hq' ->
+  Inv hq' /\ mono hq hq' /\ (forall v, In v vs -> lnk hq' v) /\ newclosed hq hq'.
+Proof.
+  intros d IHd. induction vs as [|v t IH]; intros hq hq' Hinv Hlt Hf; cbn [ofold] in Hf.
+  - inversion Hf; subst. split; [exact Hinv|]. split; [intros i Hi; exact Hi|]. split; [intros v []|].
+    intros i e _ H1 H2. contradiction.
+  - destruct (has_str (get hq v)) eqn:Ev.
+    + destruct (relink d m hq v) as [hq1|] eqn:Er; [|discriminate].
+      destruct (IHd _ _ _ Hinv (Hlt v (or_introl eq_refl)) Er) as [Hinv1 [Hm1 [Hl1 Hnc1]]].
+      destruct (IH _ _ Hinv1 (fun v0 Hv0 => Hlt v0 (or_intror Hv0)) Hf) as [Hinv2 [Hm2 [Hl2 Hnc2]]].
+      split; [exact Hinv2|]. split; [intros i Hi; apply Hm2; apply Hm1; exact Hi|].
+      split; [intros v0 [->|Hv0]; [apply Hm2; exact Hl1|apply Hl2; exact Hv0]|].
+      eapply newclosed_trans; eassumption.
+    + destruct (IH _ _ Hinv (fun v0 Hv0 => Hlt v0 (or_intror Hv0)) Hf) as [Hinv2 [Hm2 [Hl2 Hnc2]]].
+      split; [exact Hinv2|]. split; [exact Hm2|].
+      split; [intros v0 [->|Hv0]; [apply Hm2; exact Ev|apply Hl2; exact Hv0]|exact Hnc2].
+Qed.
+
+Lemma relink_spec : forall d hp r hp', Inv hp -> r < n -> relink d m hp r = Some hp' -> relink_post hp r hp'.
+Proof.
+  induction d as [|d IHd]; intros hp r hp' Hinv Hr Hrel; [discriminate|].
+  cbn [relink] in Hrel. destruct Hinv as [Hlen Hcells].
+  assert (Hre : exists e, nth_error pool r = Some e).
+  { destruct (nth_error pool r) as [e|] eqn:E; [exists e; reflexivity|]. apply nth_error_None in E. unfold n in Hr. lia. }
+  destruct Hre as [e He].
+  assert (Hcases : i_op e = None /\ i_op (get hp r) = None \/
+          exists o o1, i_op e = Some o /\ i_op (get hp r) = Some o1 /\ p_type o1 = p_type o /\ p_ops o1 = p_ops o /\ p_uid o1 = p_uid o /\
+                       (p_parents o1 = map PStr (p_parents o) \/ p_parents o1 = map (fun u => PRef (ix u)) (p_parents o))).
+  { destruct (Hcells _ _ He) as [Hc|Hc]; rewrite Hc; unfold dec_ind, link_ind; cbn [i_op];
+      destruct (i_op e) as [o|]; cbn [option_map]; try (left; split; reflexivity).
+    - right. exists o, (dec_pop o). repeat split; try reflexivity. left. reflexivity.
+    - right. exists o, (link_pop o). repeat split; try reflexivity. right. reflexivity. }
+  destruct Hcases as [[Heo Hgo]|[o [o1 [Heo [Hgo [Ht [Hops [Hu Hpar]]]]]]]].
+  - rewrite Hgo in Hrel. inversion Hrel; subst hp'.
+    split; [split; assumption|]. split; [intros i Hi; exact Hi|].
+    split; [|intros i e0 _ H1 H2; contradiction].
+    unfold lnk, has_str, parents_of. rewrite Hgo. reflexivity.
+  - rewrite Hgo in Hrel.
+    assert (Hres : resolve_list m hp (p_parents o1) = (hp, map ix (p_parents o))).
+    { rewrite resolve_list_closed.
+      - f_equal. destruct Hpar as [-> | ->]; rewrite map_map; reflexivity.
+      - intros u Hin. destruct Hpar as [Hp | Hp]; rewrite Hp in Hin; apply in_map_iff in Hin; destruct Hin as [u' [Hu' Hin]]; [|discriminate].
+        inversion Hu'. subst u'. eapply PC; [eapply nth_error_In; exact He|]. unfold parents_of. rewrite Heo. exact Hin. }
+    rewrite Hres in Hrel.
+    assert (Hset : set_parents hp r (map ix (p_parents o)) = upd hp r (link_ind e)).
+    { unfold set_parents. rewrite (nth_error_get hp) by lia. rewrite Hgo. f_equal.
+      unfold link_ind. rewrite Heo. cbn [option_map]. unfold link_pop. rewrite Ht, Hops, Hu, map_map.
+      destruct (Hcells _ _ He) as [Hc|Hc]; rewrite Hc; reflexivity. }
+    rewrite Hset in Hrel.
+    set (hp2 := upd hp r (link_ind e)) in *.
+    assert (Hinv2 : Inv hp2).
+    { split; [unfold hp2; rewrite upd_length; lia|]. intros i e0 Hi.
+      destruct (Nat.eq_dec i r) as [->|Hne].
+      - right. unfold hp2. rewrite get_upd_same by lia. rewrite He in Hi. inversion Hi. reflexivity.
+      - unfold hp2. rewrite get_upd_other by lia. apply Hcells. exact Hi. }
+    assert (Hlt : forall v, In v (map ix (p_parents o)) -> v < n).
+    { intros v Hv. apply in_map_iff in Hv. destruct Hv as [u [<- Hin]].
+      apply ix_spec. eapply PC; [eapply nth_error_In; exact He|]. unfold parents_of. rewrite Heo. exact Hin. }
+    destruct (relink_fold_spec d IHd _ _ _ Hinv2 Hlt Hrel) as [Hinv' [Hm' [Hl' Hnc']]].
+    assert (Hl2 : lnk hp2 r).
+    { unfold lnk, hp2. rewrite get_upd_same by lia. apply has_str_link. }
+    split; [exact Hinv'|]. split; [|split; [apply Hm'; exact Hl2|]].
+    + intros i Hi. apply Hm'. destruct (Nat.eq_dec i r) as [->|Hne]; [exact Hl2|].
+      unfold lnk, hp2. rewrite get_upd_other by lia. exact Hi.
+    + intros i e0 Hi Hc Hnot u Hin. destruct (Nat.eq_dec i r) as [->|Hne].
+      * rewrite He in Hi. inversion Hi; subst e0. apply Hl'. apply in_map. unfold parents_of in Hin. rewrite Heo in Hin. exact Hin.
+      * eapply Hnc'; try eassumption. unfold lnk, hp2. rewrite get_upd_other by lia. exact Hnot.
+Qed.
+
+Lemma relink_all_spec : forall d rs hp hp', Inv hp -> (forall r, In r rs -> r < n) ->
+  relink_all d m hp rs = Some hp' ->
+  Inv hp' /\ mono hp hp' /\ (forall r, In r rs -> lnk hp' r) /\ newclosed hp hp'.
+Proof.
+  unfold relink_all. induction rs as [|r t IH]; intros hp hp' Hinv Hlt Hf; cbn [ofold] in Hf.
+  - inversion Hf; subst. split; [exact Hinv|]. split; [intros i Hi; exact Hi|]. split; [intros r []|].
+    intros i e _ H1 H2. contradiction.
+  - destruct (relink d m hp r) as [hp1|] eqn:Er; [|discriminate].
+    destruct (relink_spec _ _ _ _ Hinv (Hlt r (or_introl eq_refl)) Er) as [Hinv1 [Hm1 [Hl1 Hnc1]]].
+    destruct (IH _ _ Hinv1 (fun r0 Hr0 => Hlt r0 (or_intror Hr0)) Hf) as [Hinv2 [Hm2 [Hl2 Hnc2]]].
+    split; [exact Hinv2|]. split; [intros i Hi; apply Hm2; apply Hm1; exact Hi|].
+    split; [intros r0 [->|Hr0]; [apply Hm2; exact Hl1|apply Hl2; exact Hr0]|].
+    eapply newclosed_trans; eassumption.
+Qed.
+
+(* pool indices reachable from the roots through parent uids *)
+Inductive rch (roots : list nat) : nat -> Prop :=
+| rch_root : forall r, In r roots -> rch roots r
+| rch_step : forall i e u, rch roots i -> nth_error pool i = Some e -> In u (parents_of e) -> rch roots (ix u).
+
+Lemma Inv_pristine : Inv (map dec_ind pool).
+Proof.
+  split; [apply map_length|]. intros i e Hi. left. apply get_nth_error. rewrite nth_error_map, Hi. reflexivity.
+Qed.
+
+(* after re-linking from the roots every reachable cell holds the linked form *)
+Lemma relink_all_linked : forall d roots hp', (forall r, In r roots -> r < n) ->
+  relink_all d m (map dec_ind pool) roots = Some hp' ->
+  length hp' = n /\ forall i e, rch roots i -> nth_error pool i = Some e -> get hp' i = link_ind e.
+Proof.
+  intros d roots hp' Hlt Hrel.
+  destruct (relink_all_spec _ _ _ _ Inv_pristine Hlt Hrel) as [[Hlen Hcells] [Hm [Hl Hnc]]].
+  split; [exact Hlen|].
+  assert (Hall : forall i, rch roots i -> lnk hp' i).
+  { induction 1 as [r Hr|i e u Hi IH He Hu]; [apply Hl; exact Hr|].
+    destruct (has_str (get (map dec_ind pool) i)) eqn:E0.
+    - eapply Hnc; try eassumption. unfold lnk. rewrite E0. discriminate.
+    - exfalso. assert (Hg : get (map dec_ind pool) i = dec_ind e) by (apply get_nth_error; rewrite nth_error_map, He; reflexivity).
+      rewrite Hg in E0. apply has_str_dec in E0. rewrite E0 in Hu. destruct Hu. }
+  intros i e Hi He. destruct (Hcells _ _ He) as [Hc|Hc]; [|exact Hc].
+  rewrite Hc. apply dec_eq_link_of_nil. apply has_str_dec. rewrite <- Hc. apply Hall. exact Hi.
+Qed.
+
+End ClosedDecode.
+
+(* ------------------------------------------------------------------------------------- *)
+(* decode (encode H) is isomorphic to H                                                   *)
+(* ------------------------------------------------------------------------------------- *)
+Lemma Forall2_map_r : forall (A B : Type) (R : A -> B -> Prop) (f : A -> B) l,
+  (forall x, In x l -> R x (f x)) -> Forall2 R l (map f l).
+Proof.
+  induction l as [|x t IH]; intros Hall; cbn [map]; constructor.
+  - apply Hall. left. reflexivity.
+  - apply IH. intros y Hy. apply Hall. right. exact Hy.
+Qed.
+
+Lemma in_concat_map_members : forall gs r g, In g gs -> In r (g_members g) -> In r (all_members gs).
+Proof.
+  intros gs r g Hg Hr. unfold all_members. apply in_concat. exists (g_members g). split; [apply in_map; exact Hg|exact Hr].
+Qed.
+
+Lemma all_members_map : forall (f : gen -> gen) (k : nat -> nat) gs,
+  (forall g, g_members (f g) = map k (g_members g)) -> all_members (map f gs) = map k (all_members gs).
+Proof.
+  intros f k gs Hf. unfold all_members. induction gs as [|g t IH]; [reflexivity|].
+  cbn [map concat]. rewrite map_app, Hf, IH. reflexivity.
+Qed.
+
+Lemma concat_map_map : forall (A B : Type) (k : A -> B) (ls : list (list A)), concat (map (map k) ls) = map k (concat ls).
+Proof. intros. symmetry. apply concat_map. Qed.
+
+Section RoundTrip.
+Variable H : hist.
+Let h := h_heap H.
+Hypothesis UF : uid_faithful H.
+Hypothesis WF : well_formed H.
+Variable d : nat.
+Variable rs : list nat.
+Hypothesis Hpool : pool_refs d H = Some rs.
+
+Let pool := map (enc_ind h) rs.
+Let E := mkEHist pool (EObj (h_obj H)) (EGens (map (enc_gen h) (h_gens H)))
+                 (map (map (uid_of h)) (h_snaps H)) (h_tuning H) (h_dir H).
+
+Lemma rs_nodup_uids : NoDup (map (uid_of h) rs).
+Proof. exact (proj1 (pool_refs_spec H UF d rs Hpool)). Qed.
+
+Lemma rs_in_pool : forall x, reach H x <-> In x rs.
+Proof. exact (proj2 (pool_refs_spec H UF d rs Hpool)). Qed.
+
+Lemma rs_nodup : NoDup rs.
+Proof. eapply NoDup_map_inv. exact rs_nodup_uids. Qed.
+
+Lemma pool_uids : map (@i_uid nat) pool = map (uid_of h) rs.
+Proof. unfold pool. rewrite map_map. reflexivity. Qed.
+
+Lemma pool_nodup : NoDup (map (@i_uid nat) pool).
+Proof. rewrite pool_uids. exact rs_nodup_uids. Qed.
+
+Lemma parent_in_pool : forall c x, reach H c -> In x (parents_of (get h c)) -> exists p, x = PRef p /\ reach H p.
+Proof.
+  intros c x Hc Hx. destruct (@wf_objects H WF c x Hc Hx) as [p ->].
+  exists p. split; [reflexivity|]. eapply reach_parent; eassumption.
+Qed.
+
+Lemma greach_reach : forall r, greach H r -> reach H r.
+Proof. induction 1 as [r Hg|c p Hc IH Hp]; [apply reach_gen; exact Hg|eapply reach_parent; eassumption]. Qed.
+
+Lemma reach_greach : forall r, reach H r -> greach H r.
+Proof.
+  induction 1 as [r Hg|r Hs|c p Hc IH Hp]; [apply greach_gen; exact Hg|apply (@wf_archive H WF); exact Hs|eapply greach_parent; eassumption].
+Qed.
+
+Lemma parents_enc : forall r, parents_of (enc_ind h r) = map (enc_pref h) (parents_of (get h r)).
+Proof.
+  intros r. unfold enc_ind, enc_indv, parents_of. cbn [i_op]. destruct (i_op (get h r)) as [o|]; reflexivity.
+Qed.
+
+Lemma pool_closed_parents : forall e u, In e pool -> In u (parents_of e) -> In u (map (@i_uid nat) pool).
+Proof.
+  intros e u He Hu. unfold pool in He. apply in_map_iff in He. destruct He as [r [<- Hr]].
+  rewrite parents_enc in Hu. apply in_map_iff in Hu. destruct Hu as [x [<- Hx]].
+  destruct (parent_in_pool r x (proj2 (rs_in_pool r) Hr) Hx) as [p [-> Hp]].
+  rewrite pool_uids. cbn [enc_pref]. apply in_map. apply rs_in_pool. exact Hp.
+Qed.
+
+Let ixp := ix pool.
+
+Lemma uid_in_pool : forall r, reach H r -> In (uid_of h r) (map (@i_uid nat) pool).
+Proof. intros r Hr. rewrite pool_uids. apply in_map. apply rs_in_pool. exact Hr. Qed.
+
+(* the index of a pool member in the pool *)
+Lemma key_index : forall r, reach H r -> nth_error rs (ixp (uid_of h r)) = Some r.
+Proof.
+  intros r Hr. destruct (ix_spec pool pool_nodup (uid_of h r) (uid_in_pool r Hr)) as [_ [_ [e [He Hu]]]].
+  unfold ixp. unfold pool in He at 1. rewrite nth_error_map in He.
+  destruct (nth_error rs (ix pool (uid_of h r))) as [r0|] eqn:E0; [|discriminate].
+  cbn in He. inversion He; subst e. f_equal.
+  apply UF.
+  - apply rs_in_pool. eapply nth_error_In. exact E0.
+  - exact Hr.
+  - exact Hu.
+Qed.
+
+Lemma index_key : forall i r, nth_error rs i = Some r -> ixp (uid_of h r) = i.
+Proof.
+  intros i r Hi. apply (ix_nth pool pool_nodup i (enc_ind h r)). unfold pool. rewrite nth_error_map, Hi. reflexivity.
+Qed.
+
+Variable d' : nat.
+Variable H' : hist.
+Hypothesis Hdec : decode_history d' E = Some H'.
+
+Let gs' := map (ix_gen pool) (map (enc_gen h) (h_gens H)).
+Let roots := all_members gs'.
+
+Lemma roots_eq : roots = map (fun r => ixp (uid_of h r)) (all_members (h_gens H)).
+Proof.
+  unfold roots, gs'. rewrite map_map.
+  rewrite (all_members_map (fun g => ix_gen pool (enc_gen h g)) (fun r => ixp (uid_of h r))); [reflexivity|].
+  intros g. cbn. rewrite map_map. reflexivity.
+Qed.
+
+Lemma decode_shape : exists hp4,
+  relink_all d' (umap pool) (map dec_ind pool) roots = Some hp4 /\
+  H' = mkHist hp4 (h_obj H) gs' (map (map ixp) (map (map (uid_of h)) (h_snaps H))) (h_tuning H) (h_dir H).
+Proof.
+  unfold decode_history in Hdec. cbn [e_pool e_gens e_arch e_obj e_tuning e_dir E] in Hdec.
+  rewrite (resolve_gens_closed pool pool_nodup) in Hdec.
+  2:{ intros u Hu. rewrite (all_members_map (enc_gen h) (uid_of h)) in Hu by reflexivity.
+      apply in_map_iff in Hu. destruct Hu as [r [<- Hr]]. apply uid_in_pool. apply reach_gen. exact Hr. }
+  rewrite (resolve_lists_closed pool pool_nodup) in Hdec.
+  2:{ intros u Hu. rewrite concat_map_map in Hu. apply in_map_iff in Hu. destruct Hu as [r [<- Hr]].
+      apply uid_in_pool. apply reach_snap. exact Hr. }
+  unfold relink_roots in Hdec. fold gs' in Hdec. fold roots in Hdec.
+  destruct (relink_all d' (umap pool) (map dec_ind pool) roots) as [hp4|] eqn:Er; [|discriminate].
+  exists hp4. split; [reflexivity|]. inversion Hdec. reflexivity.
+Qed.
+
+Lemma roots_lt : forall r, In r roots -> r < length pool.
+Proof.
+  intros r Hr. rewrite roots_eq in Hr. apply in_map_iff in Hr. destruct Hr as [x [<- Hx]].
+  apply (ix_spec pool pool_nodup). apply uid_in_pool. apply reach_gen. exact Hx.
+Qed.
+
+Lemma all_reachable : forall r, greach H r -> rch pool roots (ixp (uid_of h r)).
+Proof.
+  induction 1 as [r Hg|c p Hc IH Hp].
+  - apply rch_root. rewrite roots_eq. apply in_map_iff. exists r. split; [reflexivity|exact Hg].
+  - eapply (rch_step pool roots (ixp (uid_of h c)) (enc_ind h c) (uid_of h p)).
+    + exact IH.
+    + unfold pool. rewrite nth_error_map. fold ixp. rewrite (key_index c (greach_reach c Hc)). reflexivity.
+    + rewrite parents_enc. apply in_map_iff. exists (PRef p). split; [reflexivity|exact Hp].
+Qed.
+
+Lemma decoded_cells : exists hp4,
+  H' = mkHist hp4 (h_obj H) gs' (map (map ixp) (map (map (uid_of h)) (h_snaps H))) (h_tuning H) (h_dir H) /\
+  length hp4 = length pool /\
+  forall i r, nth_error rs i = Some r -> get hp4 i = link_ind pool (enc_ind h r).
+Proof.
+  destruct decode_shape as [hp4 [Hrel Heq]]. exists hp4. split; [exact Heq|].
+  destruct (relink_all_linked pool pool_nodup pool_closed_parents d' roots hp4 roots_lt Hrel) as [Hlen Hcells].
+  split; [exact Hlen|]. intros i r Hi. apply Hcells.
+  - rewrite <- (index_key i r Hi). apply all_reachable. apply reach_greach. apply rs_in_pool. eapply nth_error_In. exact Hi.
+  - unfold pool. rewrite nth_error_map, Hi. reflexivity.
+Qed.
+
+Definition RT (r r' : nat) : Prop := nth_error rs r' = Some r.
+
+Lemma RT_member : forall r, reach H r -> RT r (ixp (uid_of h r)).
+Proof. intros r Hr. unfold RT. apply key_index. exact Hr. Qed.
+
+Theorem decode_encode_iso_by : iso_by RT H H'.
+Proof.
+  destruct decoded_cells as [hp4 [Heq [Hlen Hcells]]]. subst H'.
+  constructor; cbn [h_obj h_tuning h_dir h_gens h_snaps h_heap].
+  - reflexivity.
+  - reflexivity.
+  - reflexivity.
+  - unfold gs'. rewrite map_map. apply Forall2_map_r. intros g Hg. unfold gen_rel. cbn.
+    repeat split; try reflexivity. rewrite map_map. apply Forall2_map_r. intros r Hr.
+    apply RT_member. apply reach_gen. eapply in_concat_map_members; eassumption.
+  - rewrite map_map. apply Forall2_map_r. intros l Hl. rewrite map_map. apply Forall2_map_r. intros r Hr.
+    apply RT_member. apply reach_snap. unfold snap_member. apply in_concat. exists l. split; assumption.
+  - intros r r' Hrr. unfold RT in Hrr. rewrite (Hcells _ _ Hrr). fold h.
+    assert (Hr : reach H r) by (apply rs_in_pool; eapply nth_error_In; exact Hrr).
+    unfold ind_rel, link_ind, enc_ind, enc_indv. cbn [i_uid i_fit i_graph i_meta i_ng i_op].
+    repeat split; try reflexivity.
+    pose proof (parent_in_pool r) as Hpar. unfold parents_of in Hpar.
+    destruct (i_op (get h r)) as [o|]; cbn [option_map pop_rel]; [|exact I].
+    unfold link_pop, enc_pop. cbn [p_type p_ops p_uid p_parents].
+    repeat split; try reflexivity. rewrite map_map. apply Forall2_map_r. intros x Hx.
+    destruct (Hpar x Hr Hx) as [p [-> Hp]]. cbn [pref_rel enc_pref]. apply RT_member. exact Hp.
+  - intros r r1 r2 H1 H2. unfold RT in *.
+    apply (proj1 (NoDup_nth_error rs) rs_nodup); [apply nth_error_Some; rewrite H1; discriminate|congruence].
+  - intros r1 r2 r' H1 H2. unfold RT in *. congruence.
+Qed.
+
+Lemma reach_decoded : forall r', reach H' r' -> exists r, nth_error rs r' = Some r.
+Proof.
+  destruct decoded_cells as [hp4 [Heq [Hlen Hcells]]].
+  intros r' Hr'. induction Hr' as [r' Hg|r' Hs|c' p' Hc IH Hp].
+  - subst H'. unfold gen_member in Hg. cbn [h_gens] in Hg. fold roots in Hg. rewrite roots_eq in Hg.
+    apply in_map_iff in Hg. destruct Hg as [r [<- Hr]]. exists r. apply key_index. apply reach_gen. exact Hr.
+  - subst H'. unfold snap_member in Hs. cbn [h_snaps] in Hs. rewrite map_map in Hs.
+    apply in_concat in Hs. destruct Hs as [l' [Hl' Hin]]. apply in_map_iff in Hl'. destruct Hl' as [l [<- Hl]].
+    rewrite map_map in Hin. apply in_map_iff in Hin. destruct Hin as [r [<- Hr]]. exists r. apply key_index.
+    apply reach_snap. unfold snap_member. apply in_concat. exists l. split; assumption.
+  - destruct IH as [c Hc']. subst H'. cbn [h_heap] in Hp. rewrite (Hcells _ _ Hc') in Hp.
+    assert (Hcp : reach H c) by (apply rs_in_pool; eapply nth_error_In; exact Hc').
+    unfold parents_of, link_ind, enc_ind, enc_indv in Hp. cbn [i_op] in Hp.
+    pose proof (parent_in_pool c) as Hpar. unfold parents_of in Hpar.
+    destruct (i_op (get h c)) as [o|]; cbn [option_map link_pop enc_pop p_parents] in Hp; [|destruct Hp].
+    rewrite map_map in Hp. apply in_map_iff in Hp. destruct Hp as [x [Hx Hin]].
+    destruct (Hpar x Hcp Hin) as [p [-> Hpp]]. inversion Hx. exists p. apply key_index. exact Hpp.
+Qed.
+
+Theorem decoded_uid_faithful : uid_faithful H'.
+Proof.
+  intros r1 r2 H1 H2 Hu.
+  destruct (reach_decoded r1 H1) as [a Ha]. destruct (reach_decoded r2 H2) as [b Hb].
+  destruct decoded_cells as [hp4 [Heq [Hlen Hcells]]]. subst H'. cbn [h_heap] in Hu.
+  unfold uid_of in Hu. rewrite (Hcells _ _ Ha), (Hcells _ _ Hb) in Hu. cbn in Hu.
+  assert (a = b).
+  { apply UF; [apply rs_in_pool; eapply nth_error_In; exact Ha|apply rs_in_pool; eapply nth_error_In; exact Hb|exact Hu]. }
+  subst b. apply (proj1 (NoDup_nth_error rs) rs_nodup); [apply nth_error_Some; rewrite Ha; discriminate|congruence].
+Qed.
+
+End RoundTrip.
+
+Theorem decode_encode_iso : forall H d d' E H',
+  uid_faithful H -> well_formed H ->
+  encode_history d H = Some E -> decode_history d' E = Some H' ->
+  iso H H' /\ uid_faithful H'.
+Proof.
+  intros H d d' E H' UF PCL Henc Hdec. unfold encode_history in Henc.
+  destruct (pool_refs d H) as [rs|] eqn:Hpool; [|discriminate]. inversion Henc; subst E; clear Henc.
+  split.
+  - exists (RT rs). eapply decode_encode_iso_by; eassumption.
+  - eapply decoded_uid_faithful; eassumption.
+Qed.
+
+(* ------------------------------------------------------------------------------------- *)
+(* the encoder does not distinguish isomorphic histories                                  *)
+(* ------------------------------------------------------------------------------------- *)
+Definition orel (A B : Type) (P : A -> B -> Prop) (x : option A) (y : option B) : Prop :=
+  match x, y with
+  | Some a, Some b => P a b
+  | None, None => True
+  | _, _ => False
+  end.
+Arguments orel {A B} P x y.
+
+Lemma ofold_rel : forall (A A' B B' : Type) (P : A -> A' -> Prop) (Q : B -> B' -> Prop)
+    (f : A -> B -> option A) (f' : A' -> B' -> option A'),
+  (forall a a' b b', P a a' -> Q b b' -> orel P (f a b) (f' a' b')) ->
+  forall xs xs', Forall2 Q xs xs' -> forall a a', P a a' -> orel P (ofold f xs a) (ofold f' xs' a').
+Proof.
+  intros A A' B B' P Q f f' Hf xs xs' HF. induction HF as [|x x' t t' Hx Ht IH]; intros a a' Ha; cbn [ofold].
+  - exact Ha.
+  - pose proof (Hf a a' x x' Ha Hx) as Hstep.
+    destruct (f a x) as [a1|], (f' a' x') as [a1'|]; cbn in Hstep; try contradiction; [apply IH; exact Hstep|exact I].
+Qed.
+
+Arguments ofold_rel {A A' B B'} P Q {f f'} _ {xs xs'} _ {a a'} _.
+
+Lemma Forall2_concat : forall (A B : Type) (R : A -> B -> Prop) ls ls',
+  Forall2 (Forall2 R) ls ls' -> Forall2 R (concat ls) (concat ls').
+Proof.
+  intros A B R ls ls' HF. induction HF as [|l l' t t' Hl Ht IH]; cbn [concat]; [constructor|].
+  apply Forall2_app; assumption.
+Qed.
+
+Lemma Forall2_map_eq : forall (A B C : Type) (R : A -> B -> Prop) (f : A -> C) (g : B -> C) l l',
+  Forall2 R l l' -> (forall a b, R a b -> f a = g b) -> map f l = map g l'.
+Proof.
+  intros A B C R f g l l' HF Hfg. induction HF as [|a b t t' Hab Ht IH]; cbn [map]; [reflexivity|].
+  rewrite (Hfg a b Hab), IH. reflexivity.
+Qed.
+
+Arguments Forall2_map_eq {A B C} R {f g l l'} _ _.
+
+Section RespectIso.
+Variables (R : nat -> nat -> Prop) (H H' : hist).
+Hypothesis ISO : iso_by R H H'.
+Let h := h_heap H.
+Let h' := h_heap H'.
+
+Definition drel (pm pm' : dict) : Prop :=
+  Forall2 (fun kv kv' => fst kv = fst kv' /\ R (snd kv) (snd kv')) pm pm'.
+
+Lemma R_fields : forall r r', R r r' -> ind_rel R (get h r) (get h' r').
+Proof. exact (iso_inds ISO). Qed.
+
+Lemma R_uid : forall r r', R r r' -> uid_of h r = uid_of h' r'.
+Proof. intros r r' Hr. destruct (R_fields r r' Hr) as [Hu _]. exact Hu. Qed.
+
+Lemma R_parents : forall r r', R r r' -> Forall2 (pref_rel R) (parents_of (get h r)) (parents_of (get h' r')).
+Proof.
+  intros r r' Hr. destruct (R_fields r r' Hr) as [_ [_ [_ [_ [_ Hop]]]]]. unfold parents_of.
+  destruct (i_op (get h r)) as [o|], (i_op (get h' r')) as [o'|]; cbn in Hop; try contradiction; [|constructor].
+  apply Hop.
+Qed.
+
+Lemma dict_set_rel : forall pm pm' k v v', drel pm pm' -> R v v' -> drel (dict_set pm k v) (dict_set pm' k v').
+Proof.
+  intros pm pm' k v v' HD Hv. induction HD as [|[k0 v0] [k0' v0'] t t' [Hk Hr] Ht IH]; cbn [dict_set].
+  - constructor; [split; [reflexivity|exact Hv]|constructor].
+  - cbn in Hk. subst k0'. destruct (Nat.eqb k k0).
+    + constructor; [split; [reflexivity|exact Hv]|exact Ht].
+    + constructor; [split; [reflexivity|exact Hr]|exact IH].
+Qed.
+
+Lemma drel_vals : forall pm pm', drel pm pm' -> Forall2 R (dict_vals pm) (dict_vals pm').
+Proof.
+  intros pm pm' HD. unfold dict_vals. induction HD as [|kv kv' t t' [_ Hr] Ht IH]; cbn [map]; constructor; assumption.
+Qed.
+
+Lemma drel_keys : forall pm pm', drel pm pm' -> dict_keys pm = dict_keys pm'.
+Proof.
+  intros pm pm' HD. unfold dict_keys. induction HD as [|kv kv' t t' [Hk _] Ht IH]; cbn [map]; [reflexivity|].
+  rewrite Hk, IH. reflexivity.
+Qed.
+
+Lemma extract_rel : forall d gm gm' pm pm' r r', drel gm gm' -> drel pm pm' -> R r r' ->
+  orel drel (extract d h gm pm r) (extract d h' gm' pm' r').
+Proof.
+  induction d as [|d IHd]; intros gm gm' pm pm' r r' HG HD Hr; cbn [extract]; [exact I|].
+  apply (ofold_rel drel (pref_rel R)); [|apply R_parents; exact Hr|exact HD].
+  intros a a' x x' Ha Hx. destruct x as [p|u], x' as [p'|u']; cbn in Hx; try contradiction; [|exact I].
+  rewrite <- (R_uid p p' Hx). unfold has_key. rewrite <- (drel_keys _ _ HG), <- (drel_keys _ _ Ha).
+  destruct (existsb (Nat.eqb (uid_of h p)) (dict_keys gm) || existsb (Nat.eqb (uid_of h p)) (dict_keys a)); [exact Ha|].
+  apply IHd; [exact HG| |exact Hx]. apply dict_set_rel; assumption.
+Qed.
+
+Lemma members_rel : Forall2 R (all_members (h_gens H)) (all_members (h_gens H')).
+Proof.
+  unfold all_members. apply Forall2_concat.
+  pose proof (iso_gens ISO) as HG. induction HG as [|g g' t t' Hg Ht IH]; cbn [map]; constructor; [|exact IH].
+  apply Hg.
+Qed.
+
+Lemma roots_rel : Forall2 R (pool_roots H) (pool_roots H').
+Proof.
+  unfold pool_roots. apply Forall2_app; [exact members_rel|]. apply Forall2_concat. exact (iso_snaps ISO).
+Qed.
+
+Lemma gens_map_rel : drel (gens_map h (pool_roots H)) (gens_map h' (pool_roots H')).
+Proof.
+  unfold gens_map. pose proof roots_rel as HM.
+  assert (Hgen : forall m0 m0', drel m0 m0' ->
+            drel (fold_left (fun m r => dict_set m (uid_of h r) r) (pool_roots H) m0)
+                 (fold_left (fun m r => dict_set m (uid_of h' r) r) (pool_roots H') m0')).
+  { induction HM as [|r r' t t' Hr Ht IH]; intros m0 m0' H0; cbn [fold_left]; [exact H0|].
+    apply IH. rewrite (R_uid r r' Hr). apply dict_set_rel; assumption. }
+  apply Hgen. constructor.
+Qed.
+
+Lemma dict_update_rel : forall m2 m2' m m', drel m2 m2' -> drel m m' -> drel (dict_update m m2) (dict_update m' m2').
+Proof.
+  unfold dict_update. intros m2 m2' m m' H2. revert m m'.
+  induction H2 as [|[k v] [k' v'] t t' [Hk Hr] Ht IH]; intros m m' Hm; cbn [fold_left]; [exact Hm|].
+  cbn in Hk, Hr. subst k'. apply IH. cbn [fst snd]. apply dict_set_rel; assumption.
+Qed.
+
+Lemma pool_refs_rel : forall d, orel (Forall2 R) (pool_refs d H) (pool_refs d H').
+Proof.
+  intros d. unfold pool_refs. fold h h'.
+  pose proof gens_map_rel as HG.
+  assert (HP : orel drel (parents_map d h (gens_map h (pool_roots H))) (parents_map d h' (gens_map h' (pool_roots H')))).
+  { unfold parents_map. apply (ofold_rel drel R); [|apply drel_vals; exact HG|constructor].
+    intros a a' b b' Ha Hb. apply extract_rel; assumption. }
+  destruct (parents_map d h (gens_map h (pool_roots H))) as [pm|], (parents_map d h' (gens_map h' (pool_roots H'))) as [pm'|];
+    cbn in HP; try contradiction; [|exact I].
+  cbn. apply drel_vals. apply dict_update_rel; assumption.
+Qed.
+
+Lemma enc_ind_rel : forall r r', R r r' -> enc_ind h r = enc_ind h' r'.
+Proof.
+  intros r r' Hr. pose proof (R_parents r r' Hr) as HP. destruct (R_fields r r' Hr) as [Hu [Hf [Hg [Hm [Hn Hop]]]]].
+  unfold enc_ind, enc_indv. rewrite Hu, Hf, Hg, Hm, Hn. f_equal. unfold parents_of in HP.
+  destruct (i_op (get h r)) as [o|], (i_op (get h' r')) as [o'|]; cbn in Hop; try contradiction; [|reflexivity].
+  destruct Hop as [Ht [Ho [Hpu _]]]. cbn [option_map]. unfold enc_pop. rewrite Ht, Ho, Hpu. do 2 f_equal.
+  apply (Forall2_map_eq (pref_rel R)); [exact HP|].
+  intros x x' Hx. destruct x as [p|u], x' as [p'|u']; cbn in Hx; try contradiction; cbn [enc_pref]; [apply R_uid; exact Hx|exact Hx].
+Qed.
+
+Theorem encode_respects_iso_by : forall d, encode_history d H = encode_history d H'.
+Proof.
+  intros d. unfold encode_history. pose proof (pool_refs_rel d) as HP. fold h h'.
+  destruct (pool_refs d H) as [rs|], (pool_refs d H') as [rs'|]; cbn in HP; try contradiction; [|reflexivity].
+  f_equal. f_equal.
+  - apply (Forall2_map_eq R); [exact HP|exact enc_ind_rel].
+  - f_equal. exact (iso_obj ISO).
+  - f_equal. apply (Forall2_map_eq (gen_rel R)); [exact (iso_gens ISO)|].
+    intros g g' [Hn [Hl [Hm Hmem]]]. unfold enc_gen. rewrite Hn, Hl, Hm. f_equal.
+    apply (Forall2_map_eq R); [exact Hmem|exact R_uid].
+  - apply (Forall2_map_eq (Forall2 R)); [exact (iso_snaps ISO)|].
+    intros l l' Hl. apply (Forall2_map_eq R); [exact Hl|exact R_uid].
+  - exact (iso_tuning ISO).
+  - exact (iso_dir ISO).
+Qed.
+
+End RespectIso.
+
+Theorem encode_respects_iso : forall H H' d, iso H H' -> encode_history d H = encode_history d H'.
+Proof. intros H H' d [R HR]. eapply encode_respects_iso_by. exact HR. Qed.
+
+(* saving the loaded history reproduces the same JSON *)
+Theorem encode_idempotent : forall H d d' E H',
+  uid_faithful H -> well_formed H ->
+  encode_history d H = Some E -> decode_history d' E = Some H' ->
+  encode_history d H' = Some E.
+Proof.
+  intros H d d' E H' UF PCL Henc Hdec.
+  destruct (decode_encode_iso H d d' E H' UF PCL Henc Hdec) as [Hiso _].
+  rewrite <- (encode_respects_iso H H' d Hiso). exact Henc.
+Qed.
+
+(* ------------------------------------------------------------------------------------- *)
+(* boundaries of the round-trip theorems                                                  *)
+(* ------------------------------------------------------------------------------------- *)
+(* (a) an archive member that is in no generation and has a parent: object 1 (uid 11, mutation of
+   object 0) is only in the archive snapshot.  It is saved, but the decoder re-links parents from
+   the generation members only: its parent slot keeps the uid string, and saving again raises *)
+Definition A_heap : list (ind pref) := [
+  mkInd 10 1 1 1 (Some 0) None;
+  mkInd 11 2 2 2 None (Some (mkPop 1 [5] 100 [PRef 0])) ].
+Definition A : hist := mkHist A_heap (mkObj false []) [mkGen 0 0 0 [0]] [[0; 1]] 0 0.
+
+Definition A_loaded : hist :=
+  mkHist [ mkInd 10 1 1 1 (Some 0) None; mkInd 11 2 2 2 None (Some (mkPop 1 [5] 100 [PStr 10])) ]
+         (mkObj false []) [mkGen 0 0 0 [0]] [[0; 1]] 0 0.
+
+Lemma A_reach : forall r, reach A r -> r < 2.
+Proof.
+  induction 1 as [r Hg|r Hs|c p Hc IH Hp].
+  - unfold gen_member in Hg. cbn in Hg. lia.
+  - unfold snap_member in Hs. cbn in Hs. lia.
+  - cbn [h_heap A] in Hp. destruct c as [|[|c]]; cbn in Hp; try lia. destruct Hp as [Hp|[]]. inversion Hp. lia.
+Qed.
+
+Lemma A_faithful : uid_faithful A.
+Proof.
+  intros r1 r2 H1 H2 Hu. apply A_reach in H1. apply A_reach in H2.
+  destruct r1 as [|[|r1]]; destruct r2 as [|[|r2]]; try lia; cbn in Hu; try discriminate; reflexivity.
+Qed.
+
+Lemma A_greach : forall r, greach A r -> r = 0.
+Proof.
+  induction 1 as [r Hg|c p Hc IH Hp].
+  - unfold gen_member in Hg. cbn in Hg. destruct Hg as [Hg|[]]. symmetry. exact Hg.
+  - subst c. cbn in Hp. destruct Hp.
+Qed.
+
+Theorem archive_only_refuted :
+  uid_faithful A /\ ~ well_formed A /\
+  exists E, encode_history 5 A = Some E /\ decode_history 5 E = Some A_loaded /\
+            ~ iso A A_loaded /\ encode_history 5 A_loaded = None.
+Proof.
+  split; [exact A_faithful|]. split.
+  - intros WF. assert (H1 : 1 = 0); [|discriminate]. apply A_greach. apply (@wf_archive A WF).
+    unfold snap_member. cbn. right. left. reflexivity.
+  - eexists. split; [vm_compute; reflexivity|]. split; [vm_compute; reflexivity|]. split; [|vm_compute; reflexivity].
+    intros [R HR].
+    pose proof (iso_snaps HR) as HS. cbn in HS. inversion HS as [|l l' t t' Hl _]; subst.
+    inversion Hl as [|a b s s' _ Hl2]; subst. inversion Hl2 as [|a b s s' H11 _]; subst.
+    pose proof (iso_inds HR 1 1 H11) as [_ [_ [_ [_ [_ Hop]]]]]. cbn in Hop.
+    destruct Hop as [_ [_ [_ Hp]]]. inversion Hp as [|x y u u' Hxy _]; subst. cbn in Hxy. exact Hxy.
+Qed.
+
+(* (b) two objects with one uid (not uid-faithful): the pool keeps the last one, both generations
+   get that object back - the first individual's payload is lost *)
+Definition D_heap : list (ind pref) := [ mkInd 10 1 1 1 (Some 0) None; mkInd 10 2 2 2 (Some 1) None ].
+Definition D : hist := mkHist D_heap (mkObj false []) [mkGen 0 0 0 [0]; mkGen 1 0 0 [1]] [] 0 0.
+Definition D_loaded : hist :=
+  mkHist [ mkInd 10 2 2 2 (Some 1) None ] (mkObj false []) [mkGen 0 0 0 [0]; mkGen 1 0 0 [0]] [] 0 0.
+
+Theorem duplicate_uid_refuted :
+  ~ uid_faithful D /\
+  exists E, encode_history 5 D = Some E /\ decode_history 5 E = Some D_loaded /\ ~ iso D D_loaded.
+Proof.
+  split.
+  - intros UF. assert (E : 0 = 1); [|discriminate]. apply UF.
+    + apply reach_gen. unfold gen_member. cbn. left. reflexivity.
+    + apply reach_gen. unfold gen_member. cbn. right. left. reflexivity.
+    + reflexivity.
+  - eexists. split; [vm_compute; reflexivity|]. split; [vm_compute; reflexivity|].
+    intros [R HR].
+    pose proof (iso_gens HR) as HG. cbn in HG. inversion HG as [|g g' t t' [_ [_ [_ Hm]]] HG2]; subst. cbn in Hm.
+    inversion Hm as [|a b s s' H00 _]; subst.
+    pose proof (iso_inds HR 0 0 H00) as [_ [Hfit _]]. cbn in Hfit. discriminate.
+Qed.
+
+(* (c) a history holding an individual that was loaded on its own (its parents are uid strings)
+   cannot be saved: the encoder raises *)
+Definition S_hist : hist :=
+  mkHist [ mkInd 11 2 2 2 None (Some (mkPop 1 [5] 100 [PStr 10])) ] (mkObj false []) [mkGen 0 0 0 [0]] [] 0 0.
+
+Theorem string_parent_refuted : forall d, encode_history d S_hist = None.
+Proof. intros [|d]; reflexivity. Qed.
+
+(* ------------------------------------------------------------------------------------- *)
+(* individual dumps                                                                       *)
+(* ------------------------------------------------------------------------------------- *)
+Lemma list_eqb_refl : forall (A : Type) (eqb : A -> A -> bool) l, (forall x, eqb x x = true) -> list_eqb eqb l l = true.
+Proof. intros A eqb l Hr. induction l as [|x t IH]; [reflexivity|]. cbn. rewrite Hr, IH. reflexivity. Qed.
+
+Lemma opt_nat_eqb_refl : forall a, opt_nat_eqb a a = true.
+Proof. destruct a; cbn; [apply Nat.eqb_refl|reflexivity]. Qed.
+
+Lemma eind_eqb_refl : forall e, eind_eqb e e = true.
+Proof.
+  intros e. unfold eind_eqb. rewrite !Nat.eqb_refl, opt_nat_eqb_refl. cbn.
+  destruct (i_op e) as [o|]; [|reflexivity]. unfold pop_nat_eqb. rewrite !Nat.eqb_refl, !list_eqb_refl by apply Nat.eqb_refl. reflexivity.
+Qed.
+
+(* saving the individual loaded from a dump gives the dump again *)
+Theorem dump_reencode : forall e, enc_indv [] (dec_ind e) = e.
+Proof.
+  intros [u f g mt ng op]. unfold enc_indv, dec_ind. cbn. f_equal. destruct op as [[t os pu ps]|]; [|reflexivity].
+  cbn. unfold enc_pop, dec_pop. cbn. do 2 f_equal. rewrite map_map. cbn. apply map_id.
+Qed.
+
+(* the individual loaded from its dump equals the in-memory one: every field, parents by uid *)
+Theorem dump_roundtrip : forall h r, dump_holds_b h r (dec_ind (enc_ind h r)) = true.
+Proof.
+  intros h r. unfold dump_holds_b. rewrite dump_reencode, eind_eqb_refl. cbn [andb].
+  unfold parents_of, dec_ind. cbn [i_op]. destruct (i_op (enc_ind h r)) as [o|]; [|reflexivity].
+  cbn. induction (p_parents o) as [|u t IH]; [reflexivity|exact IH].
+Qed.
+
+(* ------------------------------------------------------------------------------------- *)
+(* the decoder terminates within a budget of (pool size + 1), whatever the JSON           *)
+(* ------------------------------------------------------------------------------------- *)
+Definition cnt (hp : list (ind pref)) : nat := length (filter has_str hp).
+Definition bstr (hp : list (ind pref)) (r : nat) : nat := if has_str (get hp r) then 1 else 0.
+
+Lemma cnt_app : forall a b, cnt (a ++ b) = cnt a + cnt b.
+Proof. intros. unfold cnt. rewrite filter_app, app_length. reflexivity. Qed.
+
+Lemma cnt_le_length : forall hp, cnt hp <= length hp.
+Proof. intros. unfold cnt. induction hp as [|x t IH]; cbn; [lia|]. destruct (has_str x); cbn; lia. Qed.
+
+Lemma cnt_zero_forall : forall ph i, cnt ph = 0 -> In i ph -> has_str i = false.
+Proof.
+  unfold cnt. induction ph as [|x t IH]; intros i Hc Hin; [destruct Hin|]. cbn in Hc.
+  destruct (has_str x) eqn:E; [discriminate|]. destruct Hin as [->|Hin]; [exact E|apply IH; assumption].
+Qed.
+
+Lemma has_str_dummy : has_str dummy_ind = false.
+Proof. reflexivity. Qed.
+
+Lemma has_str_get_app : forall hp ph r, cnt ph = 0 -> has_str (get (hp ++ ph) r) = has_str (get hp r).
+Proof.
+  intros hp ph r Hc. unfold get. destruct (Nat.lt_ge_cases r (length hp)) as [Hlt|Hge].
+  - rewrite app_nth1 by exact Hlt. reflexivity.
+  - rewrite app_nth2 by exact Hge. rewrite (nth_overflow hp) by exact Hge. rewrite has_str_dummy.
+    destruct (Nat.lt_ge_cases (r - length hp) (length ph)) as [Hl2|Hg2].
+    + apply (cnt_zero_forall ph); [exact Hc|apply nth_In; exact Hl2].
+    + rewrite nth_overflow by exact Hg2. reflexivity.
+Qed.
+
+Lemma split_at : forall (hp : list (ind pref)) r, r < length hp -> hp = firstn r hp ++ get hp r :: skipn (S r) hp.
+Proof.
+  induction hp as [|x t IH]; intros r Hr; cbn in Hr; [lia|]. destruct r as [|r]; [reflexivity|].
+  cbn [firstn skipn app]. unfold get. cbn [nth]. f_equal. apply IH. lia.
+Qed.
+
+Lemma cnt_upd : forall hp r x, r < length hp ->
+  cnt (upd hp r x) + bstr hp r = cnt hp + (if has_str x then 1 else 0).
+Proof.
+  intros hp r x Hr. unfold bstr. rewrite (split_at hp r Hr) at 3. unfold upd. rewrite !cnt_app.
+  change (x :: skipn (S r) hp) with ([x] ++ skipn (S r) hp).
+  change (get hp r :: skipn (S r) hp) with ([get hp r] ++ skipn (S r) hp). rewrite !cnt_app.
+  unfold cnt at 2 5. cbn [filter]. destruct (has_str x), (has_str (get hp r)); cbn [length]; lia.
+Qed.
+
+Lemma has_str_cnt_pos : forall hp r, has_str (get hp r) = true -> 1 <= cnt hp.
+Proof.
+  intros hp r Hs. destruct (Nat.lt_ge_cases r (length hp)) as [Hlt|Hge].
+  - rewrite (split_at hp r Hlt). rewrite cnt_app. change (get hp r :: skipn (S r) hp) with ([get hp r] ++ skipn (S r) hp).
+    rewrite cnt_app. unfold cnt at 2. cbn [filter]. rewrite Hs. cbn. lia.
+  - rewrite get_default in Hs by exact Hge. discriminate.
+Qed.
+
+Lemma resolve1_ext : forall m hp x hp' r, resolve1 m hp x = (hp', r) -> exists ph, hp' = hp ++ ph /\ cnt ph = 0.
+Proof.
+  intros m hp x hp' r Hres. destruct x as [r0|u]; cbn [resolve1] in Hres.
+  - inversion Hres. exists []. rewrite app_nil_r. split; reflexivity.
+  - destruct (dict_get m u); inversion Hres.
+    + exists []. rewrite app_nil_r. split; reflexivity.
+    + exists [placeholder u]. split; reflexivity.
+Qed.
+
+Lemma resolve_list_ext : forall m xs hp hp' rs, resolve_list m hp xs = (hp', rs) -> exists ph, hp' = hp ++ ph /\ cnt ph = 0.
+Proof.
+  induction xs as [|x t IH]; intros hp hp' rs Hres; cbn [resolve_list] in Hres.
+  - inversion Hres. exists []. rewrite app_nil_r. split; reflexivity.
+  - destruct (resolve1 m hp x) as [hp1 r] eqn:E1. destruct (resolve_list m hp1 t) as [hp2 rs2] eqn:E2. inversion Hres; subst.
+    destruct (resolve1_ext _ _ _ _ _ E1) as [ph1 [-> Hc1]]. destruct (IH _ _ _ E2) as [ph2 [-> Hc2]].
+    exists (ph1 ++ ph2). rewrite app_assoc, cnt_app. split; [reflexivity|lia].
+Qed.
+
+Lemma resolve_lists_ext : forall m ls hp hp' rss, resolve_lists m hp ls = (hp', rss) -> exists ph, hp' = hp ++ ph /\ cnt ph = 0.
+Proof.
+  induction ls as [|l t IH]; intros hp hp' rss Hres; cbn [resolve_lists] in Hres.
+  - inversion Hres. exists []. rewrite app_nil_r. split; reflexivity.
+  - destruct (resolve_list m hp (map PStr l)) as [hp1 r] eqn:E1. destruct (resolve_lists m hp1 t) as [hp2 rs2] eqn:E2. inversion Hres; subst.
+    destruct (resolve_list_ext _ _ _ _ _ E1) as [ph1 [-> Hc1]]. destruct (IH _ _ _ E2) as [ph2 [-> Hc2]].
+    exists (ph1 ++ ph2). rewrite app_assoc, cnt_app. split; [reflexivity|lia].
+Qed.
+
+Lemma resolve_gens_ext : forall m gs hp hp' gs', resolve_gens m hp gs = (hp', gs') -> exists ph, hp' = hp ++ ph /\ cnt ph = 0.
+Proof.
+  induction gs as [|g t IH]; intros hp hp' gs' Hres; cbn [resolve_gens] in Hres.
+  - inversion Hres. exists []. rewrite app_nil_r. split; reflexivity.
+  - destruct (resolve_list m hp (map PStr (g_members g))) as [hp1 r] eqn:E1. destruct (resolve_gens m hp1 t) as [hp2 rs2] eqn:E2. inversion Hres; subst.
+    destruct (resolve_list_ext _ _ _ _ _ E1) as [ph1 [-> Hc1]]. destruct (IH _ _ _ E2) as [ph2 [-> Hc2]].
+    exists (ph1 ++ ph2). rewrite app_assoc, cnt_app. split; [reflexivity|lia].
+Qed.
+
+Lemma has_str_all_ref : forall u f g mt ng t os pu ps,
+  has_str (mkInd u f g mt ng (Some (mkPop t os pu (map PRef ps)))) = false.
+Proof.
+  intros. unfold has_str, parents_of. cbn [i_op p_parents]. induction ps as [|p t0 IH]; [reflexivity|exact IH].
+Qed.
+
+Lemma cnt_set_parents : forall hp r ps, cnt (set_parents hp r ps) + bstr hp r = cnt hp.
+Proof.
+  intros hp r ps. unfold set_parents. destruct (nth_error hp r) as [i|] eqn:E.
+  - assert (Hr : r < length hp) by (apply nth_error_Some; rewrite E; discriminate).
+    pose proof (get_nth_error _ _ _ E) as Hg.
+    destruct (i_op i) as [o|] eqn:Eo.
+    + pose proof (cnt_upd hp r (mkInd (i_uid i) (i_fit i) (i_graph i) (i_meta i) (i_ng i)
+                     (Some (mkPop (p_type o) (p_ops o) (p_uid o) (map PRef ps)))) Hr) as Hu.
+      rewrite has_str_all_ref in Hu. lia.
+    + unfold bstr, has_str, parents_of. rewrite Hg, Eo. cbn. lia.
+  - apply nth_error_None in E. unfold bstr. rewrite get_default by exact E. cbn. lia.
+Qed.
+
+Lemma relink_total : forall m d hp r, cnt hp < d + bstr hp r ->
+  exists hp', relink d m hp r = Some hp' /\ cnt hp' + bstr hp r <= cnt hp.
+Proof.
+  intros m. induction d as [|d IHd]; intros hp r Hc.
+  - exfalso. unfold bstr in Hc. destruct (has_str (get hp r)) eqn:E; [|lia].
+    pose proof (has_str_cnt_pos hp r E). lia.
+  - cbn [relink]. destruct (i_op (get hp r)) as [o|] eqn:Eo.
+    + destruct (resolve_list m hp (p_parents o)) as [hp1 ps] eqn:Er.
+      destruct (resolve_list_ext _ _ _ _ _ Er) as [ph [-> Hph]].
+      pose proof (cnt_set_parents (hp ++ ph) r ps) as Hset.
+      assert (Hb : bstr (hp ++ ph) r = bstr hp r) by (unfold bstr; rewrite has_str_get_app by exact Hph; reflexivity).
+      rewrite Hb, cnt_app, Hph in Hset.
+      set (hp2 := set_parents (hp ++ ph) r ps) in *.
+      assert (Hfold : forall vs hq, cnt hq <= d ->
+                exists hq', ofold (fun hq p => if has_str (get hq p) then relink d m hq p else Some hq) vs hq = Some hq' /\ cnt hq' <= cnt hq).
+      { induction vs as [|v t IH]; intros hq Hq; cbn [ofold]; [exists hq; split; [reflexivity|lia]|].
+        destruct (has_str (get hq v)) eqn:Ev.
+        - destruct (IHd hq v) as [hq1 [E1 Hc1]]; [unfold bstr; rewrite Ev; lia|].
+          rewrite E1. destruct (IH hq1) as [hq' [E' Hc']]; [lia|]. exists hq'. split; [exact E'|lia].
+        - apply IH. exact Hq. }
+      destruct (Hfold ps hp2) as [hp' [E' Hc']]; [lia|]. exists hp'. split; [exact E'|lia].
+    + exists hp. split; [reflexivity|]. unfold bstr, has_str, parents_of. rewrite Eo. cbn. lia.
+Qed.
+
+Lemma relink_all_total : forall m d rs hp, cnt hp < d -> exists hp', relink_all d m hp rs = Some hp'.
+Proof.
+  intros m d. unfold relink_all. induction rs as [|r t IH]; intros hp Hc; cbn [ofold]; [exists hp; reflexivity|].
+  destruct (relink_total m d hp r) as [hp1 [E1 Hc1]]; [lia|]. rewrite E1. apply IH. lia.
+Qed.
+
+Lemma cnt_set_ng : forall hp k r, cnt (set_ng hp k r) = cnt hp.
+Proof.
+  intros hp k r. unfold set_ng. destruct (nth_error hp r) as [i|] eqn:E; [|reflexivity].
+  destruct (i_ng i); [reflexivity|].
+  assert (Hr : r < length hp) by (apply nth_error_Some; rewrite E; discriminate).
+  pose proof (cnt_upd hp r (mkInd (i_uid i) (i_fit i) (i_graph i) (i_meta i) (Some k) (i_op i)) Hr) as Hu.
+  unfold bstr in Hu. rewrite (get_nth_error _ _ _ E) in Hu.
+  unfold has_str, parents_of in Hu. cbn [i_op] in Hu. unfold has_str, parents_of in *.
+  destruct (existsb _ _); lia.
+Qed.
+
+Lemma cnt_wrap_lists : forall ls hp k hp' gs, wrap_lists hp k ls = (hp', gs) -> cnt hp' = cnt hp.
+Proof.
+  induction ls as [|l t IH]; intros hp k hp' gs Hw; cbn [wrap_lists] in Hw; [inversion Hw; reflexivity|].
+  destruct (wrap_lists (fold_left (fun a r => set_ng a k r) l hp) (S k) t) as [hp2 gs2] eqn:E. inversion Hw; subst.
+  rewrite (IH _ _ _ _ E). clear. revert hp. induction l as [|r t IH]; intros hp; cbn [fold_left]; [reflexivity|].
+  rewrite IH. apply cnt_set_ng.
+Qed.
+
+(* loading never exceeds a recursion budget of (pool size + 1) *)
+Theorem decode_total : forall E d, length (e_pool E) < d -> decode_history d E <> None.
+Proof.
+  intros E d Hd. unfold decode_history.
+  set (m := umap (e_pool E)). set (hp0 := map dec_ind (e_pool E)).
+  assert (H0 : cnt hp0 <= length (e_pool E)).
+  { pose proof (cnt_le_length hp0). unfold hp0 in *. rewrite map_length in *. assumption. }
+  destruct (e_gens E) as [gs|ls].
+  - destruct (resolve_gens m hp0 gs) as [hp1 gs1] eqn:E1.
+    destruct (resolve_gens_ext _ _ _ _ _ E1) as [ph1 [-> Hc1]].
+    destruct (resolve_lists m (hp0 ++ ph1) (e_arch E)) as [hp2 snaps] eqn:E2.
+    destruct (resolve_lists_ext _ _ _ _ _ E2) as [ph2 [-> Hc2]].
+    destruct (relink_all_total m d (all_members gs1) ((hp0 ++ ph1) ++ ph2)) as [hp4 E4]; [rewrite !cnt_app; lia|].
+    rewrite E4. discriminate.
+  - destruct (resolve_lists m hp0 ls) as [hp1 rss] eqn:E1.
+    destruct (resolve_lists_ext _ _ _ _ _ E1) as [ph1 [-> Hc1]].
+    destruct (resolve_lists m (hp0 ++ ph1) (e_arch E)) as [hp2 snaps] eqn:E2.
+    destruct (resolve_lists_ext _ _ _ _ _ E2) as [ph2 [-> Hc2]].
+    destruct (wrap_lists ((hp0 ++ ph1) ++ ph2) 0 (map g_members (map (fun rs => mkGen 0 0 0 rs) rss))) as [hp3 gs3] eqn:E3.
+    pose proof (cnt_wrap_lists _ _ _ _ _ E3) as Hc3.
+    destruct (relink_all_total m d (all_members gs3) hp3) as [hp4 E4]; [rewrite Hc3, !cnt_app; lia|].
+    rewrite E4. discriminate.
+Qed.
+
+(* ------------------------------------------------------------------------------------- *)
+(* the encoder terminates on histories built by the constructors                          *)
+(* ------------------------------------------------------------------------------------- *)
+(* a ParentOperator is frozen: its parents exist before the child, and they are objects *)
+Definition heap_ordered (h : list (ind pref)) : Prop :=
+  forall r x, In x (parents_of (get h r)) -> exists p, x = PRef p /\ p < r.
+
+Lemma extract_total : forall h, heap_ordered h -> forall d r pm, r < d -> exists pm', extract d h pm r = Some pm'.
+Proof.
+  intros h HO. induction d as [|d IHd]; intros r pm Hr; [lia|]. cbn [extract].
+  assert (Hfold : forall xs pm0, (forall x, In x xs -> exists p, x = PRef p /\ p < r) ->
+            exists pm', ofold (fun pm1 x => match x with
+                                           | PStr _ => None
+                                           | PRef p => match i_ng (get h p) with
+                                                       | Some _ => Some pm1
+                                                       | None => extract d h (dict_set pm1 (uid_of h p) p) p
+                                                       end
+                                           end) xs pm0 = Some pm').
+  { induction xs as [|x t IH]; intros pm0 Hall; cbn [ofold]; [exists pm0; reflexivity|].
+    destruct (Hall x (or_introl eq_refl)) as [p [-> Hp]].
+    destruct (i_ng (get h p)).
+    - apply IH. intros y Hy. apply Hall. right. exact Hy.
+    - destruct (IHd p (dict_set pm0 (uid_of h p) p)) as [pm1 E1]; [lia|]. rewrite E1.
+      apply IH. intros y Hy. apply Hall. right. exact Hy. }
+  apply Hfold. intros x Hx. apply (HO r x Hx).
+Qed.
+
+Theorem encode_total : forall H d, heap_ordered (h_heap H) ->
+  (forall r, In r (all_members (h_gens H)) -> r < d) -> encode_history d H <> None.
+Proof.
+  intros H d HO Hm. unfold encode_history, pool_refs, parents_map.
+  set (h := h_heap H). set (gm := gens_map h (h_gens H)).
+  assert (Hvals : forall r, In r (dict_vals gm) -> r < d).
+  { unfold gm, gens_map.
+    assert (Hgen : forall rs m0, (forall r, In r rs -> r < d) -> (forall r, In r (dict_vals m0) -> r < d) ->
+              forall r, In r (dict_vals (fold_left (fun m r => dict_set m (uid_of h r) r) rs m0)) -> r < d).
+    { induction rs as [|x t IH]; intros m0 H1 H2 r Hr; cbn [fold_left] in Hr; [apply H2; exact Hr|].
+      eapply IH; [intros y Hy; apply H1; right; exact Hy| |exact Hr].
+      intros y Hy. unfold dict_vals in Hy. apply in_map_iff in Hy. destruct Hy as [[k v] [Hk Hin]]. cbn in Hk. subst v.
+      assert (Hcases : In (k, y) m0 \/ y = x).
+      { clear - Hin. induction m0 as [|[k0 v0] t0 IHm]; cbn [dict_set] in Hin.
+        - destruct Hin as [Hin|[]]. inversion Hin. right. reflexivity.
+        - destruct (Nat.eqb (uid_of h x) k0).
+          + destruct Hin as [Hin|Hin]; [inversion Hin; right; reflexivity|left; right; exact Hin].
+          + destruct Hin as [Hin|Hin]; [left; left; exact Hin|]. destruct (IHm Hin) as [Hl|Hr]; [left; right; exact Hl|right; exact Hr]. }
+      destruct Hcases as [Hl| ->]; [apply H2; eapply in_dict_vals; exact Hl|apply H1; left; reflexivity]. }
+    apply Hgen; [exact Hm|intros r []]. }
+  assert (Hfold : forall vs pm0, (forall r, In r vs -> r < d) -> exists pm, ofold (fun pm r => extract d h pm r) vs pm0 = Some pm).
+  { induction vs as [|v t IH]; intros pm0 Hall; cbn [ofold]; [exists pm0; reflexivity|].
+    destruct (extract_total h HO d v pm0 (Hall v (or_introl eq_refl))) as [pm1 E1]. rewrite E1.
+    apply IH. intros r Hr. apply Hall. right. exact Hr. }
+  destruct (Hfold (dict_vals gm) [] Hvals) as [pm Epm]. fold h. fold gm. rewrite Epm. discriminate.
+Qed.
+
+(* ------------------------------------------------------------------------------------- *)
+(* the encoding of a faithful, pool-closed history is closed; reflection of the oracle     *)
+(* ------------------------------------------------------------------------------------- *)
+Theorem encode_closed : forall H d E, uid_faithful H -> well_formed H -> encode_history d H = Some E -> e_closed E.
+Proof.
+  intros H d E UF PCL Henc. unfold encode_history in Henc.
+  destruct (pool_refs d H) as [rs|] eqn:Hpool; [|discriminate]. inversion Henc; subst E; clear Henc.
+  unfold e_closed, e_gen_uids. cbn [e_pool e_gens e_arch].
+  split; [exact (pool_nodup H UF d rs Hpool)|]. split; [|split].
+  - intros u Hu. rewrite (all_members_map (enc_gen (h_heap H)) (uid_of (h_heap H))) in Hu by reflexivity.
+    apply in_map_iff in Hu. destruct Hu as [r [<- Hr]]. apply (uid_in_pool H UF d rs Hpool). apply in_pool_gen. exact Hr.
+  - intros u Hu. rewrite concat_map_map in Hu. apply in_map_iff in Hu. destruct Hu as [r [<- Hr]].
+    apply (uid_in_pool H UF d rs Hpool). apply (@pc_snaps H PCL). exact Hr.
+  - intros e u He Hu. exact (pool_closed_parents H UF PCL d rs Hpool e u He Hu).
+Qed.
+
+Lemma mem_b_In : forall x l, mem_b x l = true <-> In x l.
+Proof.
+  intros x l. unfold mem_b. rewrite existsb_exists. split.
+  - intros [y [Hy He]]. apply Nat.eqb_eq in He. subst. exact Hy.
+  - intros Hin. exists x. split; [exact Hin|apply Nat.eqb_refl].
+Qed.
+
+Lemma nodup_b_NoDup : forall l, nodup_b l = true <-> NoDup l.
+Proof.
+  induction l as [|x t IH]; cbn [nodup_b]; [split; [constructor|reflexivity]|].
+  rewrite andb_true_iff, negb_true_iff, IH. split.
+  - intros [Hn Hnd]. constructor; [|exact Hnd]. intros Hin. apply mem_b_In in Hin. unfold mem_b in Hin. rewrite Hin in Hn. discriminate.
+  - intros Hnd. inversion Hnd; subst. split; [|assumption].
+    destruct (existsb (Nat.eqb x) t) eqn:E; [|reflexivity]. exfalso. apply H1. apply mem_b_In. exact E.
+Qed.
+
+Theorem e_closed_b_iff : forall E, e_closed_b E = true <-> e_closed E.
+Proof.
+  intros E. unfold e_closed_b, e_closed. rewrite !andb_true_iff, nodup_b_NoDup, !forallb_forall.
+  split.
+  - intros [[[H1 H2] H3] H4]. split; [exact H1|]. split; [|split].
+    + intros u Hu. apply mem_b_In. apply H2. exact Hu.
+    + intros u Hu. apply mem_b_In. apply H3. exact Hu.
+    + intros e u He Hu. apply mem_b_In. specialize (H4 e He). rewrite forallb_forall in H4. apply H4. exact Hu.
+  - intros [H1 [H2 [H3 H4]]]. repeat split; [exact H1| | |].
+    + intros u Hu. apply mem_b_In. apply H2. exact Hu.
+    + intros u Hu. apply mem_b_In. apply H3. exact Hu.
+    + intros e He. apply forallb_forall. intros u Hu. apply mem_b_In. eapply H4; eassumption.
+Qed.
+
+(* ------------------------------------------------------------------------------------- *)
+(* a non-trivial history inside the guard (used by the Examples of Properties/C10.v)       *)
+(* ------------------------------------------------------------------------------------- *)
+(* 0: initial individual (generation 0); 1: intermediate ancestor without native generation
+   (mutation of 0); 2: crossover of 1 and 0, member of generation 1 together with 0 *)
+Definition X_heap : list (ind pref) := [
+  mkInd 10 1 1 1 (Some 0) None;
+  mkInd 11 0 2 2 None (Some (mkPop 1 [5] 100 [PRef 0]));
+  mkInd 12 3 3 2 (Some 1) (Some (mkPop 2 [6; 7] 101 [PRef 1; PRef 0])) ].
+Definition X : hist := mkHist X_heap (mkObj true [1; 2]) [mkGen 0 1 1 [0]; mkGen 1 0 0 [2; 0]] [[2]] 0 0.
+
+Lemma X_reach : forall r, reach X r -> r < 3.
+Proof.
+  induction 1 as [r Hg|r Hs|c p Hc IH Hp].
+  - unfold gen_member in Hg. cbn in Hg. lia.
+  - unfold snap_member in Hs. cbn in Hs. lia.
+  - cbn [h_heap X] in Hp. destruct c as [|[|[|c]]]; cbn in Hp; try lia.
+    + destruct Hp as [Hp|[]]; inversion Hp; lia.
+    + destruct Hp as [Hp|[Hp|[]]]; inversion Hp; lia.
+Qed.
+
+Lemma X_faithful : uid_faithful X.
+Proof.
+  intros r1 r2 H1 H2 Hu. apply X_reach in H1. apply X_reach in H2.
+  destruct r1 as [|[|[|r1]]]; destruct r2 as [|[|[|r2]]]; try lia; cbn in Hu; try discriminate; reflexivity.
+Qed.
+
+Lemma X_closed : pool_closed X.
+Proof.
+  constructor.
+  - intros c x Hc Hx. apply X_reach in Hc. cbn [h_heap X] in Hx.
+    destruct c as [|[|[|c]]]; cbn in Hx; try lia.
+    + destruct Hx as [<-|[]]. eexists; reflexivity.
+    + destruct Hx as [<-|[<-|[]]]; eexists; reflexivity.
+  - intros c p Hc Hp Hng. apply X_reach in Hc. cbn [h_heap X] in Hp, Hng. unfold gen_member. cbn.
+    destruct c as [|[|[|c]]]; cbn in Hp; try lia.
+    + destruct Hp as [Hp|[]]. inversion Hp. left. reflexivity.
+    + destruct Hp as [Hp|[Hp|[]]]; inversion Hp; subst p; [exfalso; apply Hng; reflexivity|left; reflexivity].
+  - intros r Hs. unfold snap_member in Hs. cbn in Hs. destruct Hs as [<-|[]]. apply in_pool_gen. unfold gen_member. cbn. right. left. reflexivity.
+Qed.
+
+Lemma X_ordered : heap_ordered (h_heap X).
+Proof.
+  intros r x Hx. cbn [h_heap X] in Hx. destruct r as [|[|[|r]]]; cbn in Hx.
+  - destruct Hx.
+  - destruct Hx as [<-|[]]. exists 0. split; [reflexivity|lia].
+  - destruct Hx as [<-|[<-|[]]]; eexists; (split; [reflexivity|lia]).
+  - unfold get in Hx. destruct r; cbn in Hx; destruct Hx.
 Qed.
